@@ -167,6 +167,14 @@ def _convert_returns(stmts, make, allow_none):
     """rewrite the tail `return v` of a straight-line / if-else body into `make(v)`; False when a return sits elsewhere"""
     if not stmts:
         return allow_none
+    # `if c: ...; return a` followed by more statements is `if c: ...; return a` / `else: <the rest>`
+    for k, st in enumerate(stmts[:-1]):
+        if _has_return([st]):
+            if isinstance(st, ast.If) and st.body and isinstance(st.body[-1], ast.Return) and not _has_return(st.body[:-1]) and \
+                    not _has_return(st.orelse):
+                st.orelse = list(st.orelse) + stmts[k + 1:]
+                del stmts[k + 1:]
+            break
     if _has_return(stmts[:-1]):
         return False
     last = stmts[-1]
@@ -441,8 +449,14 @@ class Env:
         if isinstance(t, ast.Name):
             self._add(t.id, st, value)
         elif isinstance(t, (ast.Tuple, ast.List)):
-            for e in t.elts:
-                self._target(e, st, None)
+            # `a, b = x, y` binds elementwise (unless a target is read on the right: a swap)
+            vals = None
+            if isinstance(value, (ast.Tuple, ast.List)) and len(value.elts) == len(t.elts) and \
+                    not any(isinstance(e, ast.Starred) for e in list(t.elts) + list(value.elts)) and all(isinstance(e, ast.Name) for e in t.elts) \
+                    and not ({e.id for e in t.elts} & {n.id for n in ast.walk(value) if isinstance(n, ast.Name)}):
+                vals = value.elts
+            for k, e in enumerate(t.elts):
+                self._target(e, st, vals[k] if vals is not None else None)
         elif isinstance(t, ast.Starred):
             self._target(t.value, st, None)
         elif isinstance(t, ast.Attribute):
@@ -857,15 +871,47 @@ def _diags_call(v):
     return None
 
 
-def block_lists(fn, env=None):
-    """self._X = sparse.diags(<list>, ...)  ->  {self._X: list name}"""
+ROLE = dict(zip(("self._massMatrix", "self._k2PhiPsi", "self._PhiPsi", "self._dPhidPsi", "self._dPhiPsi"), LISTS))
+SPARSE_CONVERT = ("tocsc", "tocsr", "tocoo", "asformat", "copy")
+SPARSE_CTORS = ("csc_matrix", "csr_matrix", "coo_matrix", "csc_array", "csr_array")
+
+
+def _matrix_source(v):
+    """`M.tocsc()[...]` / `sparse.csc_matrix(M)[...]` -> the name M of a matrix filled entry by entry, else None"""
+    while isinstance(v, ast.Subscript):
+        v = v.value
+    for _ in range(3):
+        if isinstance(v, ast.Call) and isinstance(v.func, ast.Attribute) and v.func.attr in SPARSE_CONVERT and not isinstance(v.func.value, ast.Name):
+            v = v.func.value
+        else:
+            break
+    if isinstance(v, ast.Call) and isinstance(v.func, ast.Attribute) and v.func.attr in SPARSE_CONVERT and isinstance(v.func.value, ast.Name):
+        return v.func.value.id
+    if isinstance(v, ast.Call) and src(v.func).split(".")[-1] in SPARSE_CTORS and len(v.args) == 1 and isinstance(v.args[0], ast.Name):
+        return v.args[0].id
+    return None
+
+
+def containers(fn, env):
+    """how each assembled block gets its entries: {block: (scheme, container name, assignment)} with scheme 'diags' (a list of
+    diagonals handed to sparse.diags) or 'matrix' (a matrix written at [row, column] and converted)"""
     out = {}
     for n in ast.walk(fn):
         if isinstance(n, ast.Assign) and src(n.targets[0]) in BLOCKS:
-            v = _diags_call(env.x(n.value, stop=set(LISTS), use=n) if env is not None else n.value)
-            if v is not None and v.args and isinstance(v.args[0], ast.Name):
-                out[src(n.targets[0])] = v.args[0].id
+            v = env.x(n.value, stop=set(LISTS), use=n) if env is not None else n.value
+            c = _diags_call(v)
+            if c is not None and c.args and isinstance(c.args[0], ast.Name):
+                out[src(n.targets[0])] = ("diags", c.args[0].id, n)
+                continue
+            m = _matrix_source(v)
+            if m is not None:
+                out[src(n.targets[0])] = ("matrix", m, n)
     return out
+
+
+def block_lists(fn, env=None):
+    """{block: name of the container (list of diagonals / matrix of entries) it is built from}"""
+    return {b: c[1] for b, c in containers(fn, env).items()}
 
 
 def block_vector(e, stiff=None):
@@ -964,11 +1010,27 @@ def assembly(chk):
     q = f"{CLS}.__init__"
     # innermost assembly loop: `for j, s_j in enumerate(range(i, ...), degree)` or `for s_j in range(i, ...)`, the loop whose
     # statements store into the diagonal lists
+    conts = containers(fn, env)
+    scheme = {c[1]: c[0] for c in conts.values()}
+    role = {}
+    for b_, c_ in conts.items():
+        role[c_[1]] = ROLE[b_] if c_[1] not in role else None       # a container feeding two blocks has no single role
+    for nm_ in LISTS:
+        role.setdefault(nm_, nm_)
+        scheme.setdefault(nm_, "diags")
+
+    def entry_target(t):
+        """(container, 'diags' | 'matrix') of a store into an assembled container, else None"""
+        if isinstance(t, ast.Subscript) and isinstance(t.value, ast.Subscript) and isinstance(t.value.value, ast.Name) \
+                and scheme.get(t.value.value.id) == "diags":
+            return t.value.value.id, "diags"
+        if isinstance(t, ast.Subscript) and isinstance(t.value, ast.Name) and scheme.get(t.value.id) == "matrix" \
+                and isinstance(t.slice, ast.Tuple) and len(t.slice.elts) == 2:
+            return t.value.id, "matrix"
+        return None
     loops = []
     for n in ast.walk(fn):
-        if not isinstance(n, ast.For) or not any(
-                isinstance(s_, ast.Assign) and isinstance(s_.targets[0], ast.Subscript) and isinstance(s_.targets[0].value, ast.Subscript)
-                and isinstance(s_.targets[0].value.value, ast.Name) and s_.targets[0].value.value.id in LISTS for s_ in n.body):
+        if not isinstance(n, ast.For) or not any(isinstance(s_, ast.Assign) and any(entry_target(t_) for t_ in s_.targets) for s_ in n.body):
             continue
         it = env.x(n.iter)
         if isinstance(n.target, ast.Tuple) and len(n.target.elts) == 2 and all(isinstance(e, ast.Name) for e in n.target.elts) and \
@@ -978,7 +1040,8 @@ def assembly(chk):
         elif isinstance(n.target, ast.Name) and isinstance(it, ast.Call) and src(it.func) == "range":
             loops.append((n, it, it, None, n.target.id))
     if len(loops) != 1:
-        raise AnalysisError("C14: assembly loop `for j, s_j in enumerate(range(i, ...), degree)` not found")
+        raise AnalysisError("C14: assembly loop over the columns s_j of row i (stores into the lists of diagonals / the matrices of "
+                            "entries the blocks are built from) not found")
     lp, it, rng, jn, sjn = loops[0]
     outer = parent(lp)
     iv = outer.target.id if isinstance(outer, ast.For) and isinstance(outer.target, ast.Name) else "i"
@@ -993,6 +1056,10 @@ def assembly(chk):
         ("dPhiPsiCoeffs", UP): W * MF * B_ * PHI1 * PSI0 * X,
         ("dPhiPsiCoeffs", LOW): W * MF * B_ * PHI0 * PSI1 * X,
     }
+    # symmetric blocks: the mirrored entry, when it is written at all, is the same integral
+    SYM = ("massCoeffs", "k2PhiPsiCoeffs", "PhiPsiCoeffs")
+    for nm_ in SYM:
+        spec[(nm_, LOW)] = spec[(nm_, UP)]
     what = {
         "massCoeffs": "mass = Q[E phi_j psi_i r]", "k2PhiPsiCoeffs": "k2 = Q[D phi_j psi_i r]",
         "PhiPsiCoeffs": "PhiPsi = Q[C phi_j psi_i r]",
@@ -1023,55 +1090,83 @@ def assembly(chk):
     start = None
     if jn is not None:
         start = it.args[1] if len(it.args) > 1 else next((k.value for k in it.keywords if k.arg == "start"), ast.Constant(value=0))
-    for st in lp.body:
-        if not isinstance(st, ast.Assign):
-            continue
-        t = st.targets[0]
-        if not (isinstance(t, ast.Subscript) and isinstance(t.value, ast.Subscript) and isinstance(t.value.value, ast.Name)):
-            continue
-        name = t.value.value.id
-        dslice = env.x(t.value.slice, stop=stop, use=st)
-        diag = src(dslice)
+    def judge(st, t, name, sch):
+        cname = role.get(name) or name          # the role of the container: which block it becomes
         shift = None
-        if name in offsets:
-            try:
-                tb = {}
-                # k = s_j - i, the distance of the column from the row: the counter minus its start, or the difference itself
-                if jn is not None:
-                    kk = _sym(ast.Name(id=jn, ctx=ast.Load()), tb) - _sym(start, tb)
-                else:
-                    kk = _sym(ast.Name(id=sjn, ctx=ast.Load()), tb) - _sym(ast.Name(id=iv, ctx=ast.Load()), tb)
-                L_, a_ = _sym(dslice, tb), _sym(offsets[name][0], tb)
-                e_up, e_low = sp.expand(a_ + L_ - kk), sp.expand(a_ + L_ + kk)
-                loopsyms = {tb[x] for x in (jn, sjn, iv) if x in tb}
-                if e_up == 0:
-                    diag = UP
-                elif e_low == 0:
-                    diag = LOW
-                elif _atomic(dslice) and _atomic(offsets[name][0]) and (start is None or _atomic(start)):
-                    if not (e_up.free_symbols & loopsyms):
-                        shift = ("k", e_up)
-                    elif not (e_low.free_symbols & loopsyms):
-                        shift = ("-k", e_low)
-            except KeyError:
-                pass
-        row = src(t.slice)
-        key = (name, diag)
-        if shift is not None and name in what:
-            misplaced.append(name)
+        tb = {}
+        if sch == "matrix":
+            # an entry written at [row, column]: (i, s_j) is on the upper diagonal k = s_j - i, (s_j, i) is its mirror image
+            r_, c_ = (env.x(e_, stop=stop, use=st) for e_ in t.slice.elts)
+            place = f"{name}[{src(r_)}, {src(c_)}]"
+            pos = (arith_equal(r_, iv), arith_equal(c_, sjn), arith_equal(r_, sjn), arith_equal(c_, iv))
+            if pos[0] and pos[1]:
+                diag = UP
+            elif pos[2] and pos[3]:
+                diag = LOW
+            else:
+                if cname in what:
+                    shifted = False
+                    try:
+                        t2 = {}
+                        dr, dc = (_sym(r_, t2) - _sym(ast.Name(id=iv, ctx=ast.Load()), t2), _sym(c_, t2) - _sym(ast.Name(id=sjn, ctx=ast.Load()), t2))
+                        er, ec = (_sym(r_, t2) - _sym(ast.Name(id=sjn, ctx=ast.Load()), t2), _sym(c_, t2) - _sym(ast.Name(id=iv, ctx=ast.Load()), t2))
+                        shifted = any(sp.expand(a_).is_number and sp.expand(b_).is_number for a_, b_ in ((dr, dc), (er, ec)))
+                    except KeyError:
+                        pass
+                    if None not in pos or shifted:
+                        misplaced.append(cname)
+                        chk.ob("F4-assembly-indexing", st, place, False,
+                               f"the integral of row function {iv} and column function {sjn} is written at `[{src(r_)}, {src(c_)}]`, which is "
+                               f"neither entry ({iv}, {sjn}) nor its mirror image ({sjn}, {iv}): the entries of this block are in the wrong "
+                               "places", file=U.POISSON, func=q)
+                    else:
+                        unkeyed.add(cname)
+                        chk.ob("F4-weak-form", st, place, None, f"entry position `[{src(r_)}, {src(c_)}]` not recognised", file=U.POISSON, func=q)
+                return
+            row = iv
+            shown = f"{cname}[{'i, s_j' if diag == UP else 's_j, i'}]"
+        else:
+            dslice = env.x(t.value.slice, stop=stop, use=st)
+            diag = src(dslice)
+            if name in offsets:
+                try:
+                    # k = s_j - i, the distance of the column from the row: the counter minus its start, or the difference itself
+                    if jn is not None:
+                        kk = _sym(ast.Name(id=jn, ctx=ast.Load()), tb) - _sym(start, tb)
+                    else:
+                        kk = _sym(ast.Name(id=sjn, ctx=ast.Load()), tb) - _sym(ast.Name(id=iv, ctx=ast.Load()), tb)
+                    L_, a_ = _sym(dslice, tb), _sym(offsets[name][0], tb)
+                    e_up, e_low = sp.expand(a_ + L_ - kk), sp.expand(a_ + L_ + kk)
+                    loopsyms = {tb[x] for x in (jn, sjn, iv) if x in tb}
+                    if e_up == 0:
+                        diag = UP
+                    elif e_low == 0:
+                        diag = LOW
+                    elif _atomic(dslice) and _atomic(offsets[name][0]) and (start is None or _atomic(start)):
+                        if not (e_up.free_symbols & loopsyms):
+                            shift = ("k", e_up)
+                        elif not (e_low.free_symbols & loopsyms):
+                            shift = ("-k", e_low)
+                except KeyError:
+                    pass
+            row = src(t.slice)
+            shown = None
+        key = (cname, diag)
+        if shift is not None and cname in what:
+            misplaced.append(cname)
             inv_ = {v: k for k, v in tb.items()}
             sh = str(shift[1].subs({v: sp.Symbol(k.replace("self._rspline.", "")) for v, k in inv_.items()}))
-            chk.ob("F4-assembly-indexing", st, f"{name}[{src(dslice)}][{row}]", False,
+            chk.ob("F4-assembly-indexing", st, f"{cname}[{src(dslice)}][{row}]", False,
                    f"the integral of row {iv} and column {sjn} = {iv} + k is stored in list entry `{src(dslice)}`, which "
                    f"sparse.diags(..., range({src(offsets[name][0])}, ...)) places on the diagonal of offset {shift[0]} + ({sh}) instead of "
                    f"{shift[0]}: the entries of this block are on the wrong diagonals", file=U.POISSON, func=q)
-            key = (name, UP if shift[0] == "k" else LOW)       # the integrand is still judged
+            key = (cname, UP if shift[0] == "k" else LOW)       # the integrand is still judged
             diag = key[1]
         if key not in spec:
-            if name in what:
-                unkeyed.add(name)
+            if cname in what:
+                unkeyed.add(cname)
                 chk.ob("F4-weak-form", st, src(t), None, f"diagonal index `{diag}` not recognised", file=U.POISSON, func=q)
-            continue
+            return
         seen.add(key)
         val = _TableLookup().visit(env.x(st.value, stop=stop, use=st))
         try:
@@ -1079,24 +1174,35 @@ def assembly(chk):
         except WrongBasis as e:
             wrong_basis.append((st, str(e)))
             chk.ob("F4-weak-form", st, src(t), None, f"integrand evaluates basis function `{e}`", file=U.POISSON, func=q)
-            continue
+            return
         except KeyError as e:
             chk.ob("F4-weak-form", st, src(t), None, f"integrand contains an unrecognised factor {e}", file=U.POISSON, func=q)
-            continue
+            return
         if row != iv:
             chk.ob("F4-weak-form", st, src(t), None, f"entry position `{row}` is not the row index `{iv}`", file=U.POISSON, func=q)
-            continue
+            return
         ok = alg_equal(sp.expand(got), sp.expand(spec[key]))
+        if key in block_got and not alg_equal(block_got[key], sp.expand(got)):
+            chk.ob("F4-weak-form", st, src(t), None, "the entry is written more than once with different integrands", file=U.POISSON, func=q)
+            return
         block_got[key] = sp.expand(got)
-        if not ok and name in ("dPhidPsiCoeffs", "dPhiPsiCoeffs", "PhiPsiCoeffs") and \
+        shown_ = shown or f"{cname}[{diag}][{row}]"
+        if not ok and cname in ("dPhidPsiCoeffs", "dPhiPsiCoeffs", "PhiPsiCoeffs") and \
                 alg_equal(sp.expand(got), sp.expand(-spec[key])):
             # a block stored with the opposite sign is a convention; the assembled operator decides (F4-weak-form-operator)
-            chk.ob("F4-weak-form", st, f"{name}[{diag}][{row}]", True, what[name] + " - stored with the opposite sign; the sign is "
+            chk.ob("F4-weak-form", st, shown_, True, what[cname] + " - stored with the opposite sign; the sign is "
                    "accounted for where the operator is assembled", file=U.POISSON, func=q)
-            continue
-        chk.ob("F4-weak-form", st, f"{name}[{diag}][{row}]", ok, what[name] if ok else
-               f"integrand {sp.expand(got)} differs from the weak form {sp.expand(spec[key])} ({what[name]})",
+            return
+        chk.ob("F4-weak-form", st, shown_, ok, what[cname] if ok else
+               f"integrand {sp.expand(got)} differs from the weak form {sp.expand(spec[key])} ({what[cname]})",
                file=U.POISSON, func=q, facts={"code": str(sp.expand(got)), "spec": str(sp.expand(spec[key]))})
+
+    for st in lp.body:
+        if isinstance(st, ast.Assign):
+            for t in st.targets:
+                et = entry_target(t)
+                if et is not None:
+                    judge(st, t, *et)
     # the functions integrated are the row function i and the column function s_j of the entry
     okf = bool(seen) and not unkeyed and not wrong_basis and len(block_got) == len(seen)
     bad = None
@@ -1116,33 +1222,46 @@ def assembly(chk):
         chk.pat("F4-assembly-indexing", lp, src(it)[:100], ok_it,
                 "columns s_j = i + k, k = 0..degree, of row i; every entry is stored in the list entry that sparse.diags places on "
                 "diagonal k (and -k for the mirrored ones)", bad, file=U.POISSON, func=q)
-    missing = set(spec) - seen
+    # the mirrored entries of the symmetric blocks need no statement of their own when the storage aliases them (judged below)
+    missing = {k_ for k_ in set(spec) - seen if not (k_[0] in SYM and k_[1] == LOW)}
     if missing:
         # entries written by statements this rule did not key (other loop, other index form) cannot be judged
-        elsewhere = {n.targets[0].value.value.id for n in ast.walk(fn) if isinstance(n, ast.Assign)
-                     and isinstance(n.targets[0], ast.Subscript) and isinstance(n.targets[0].value, ast.Subscript)
-                     and isinstance(n.targets[0].value.value, ast.Name) and not any(n is s_ for s_ in lp.body)}
-        decided = not any(nm in unkeyed or nm in elsewhere for nm, _ in missing)
+        elsewhere = {role.get(et_[0]) or et_[0] for n in ast.walk(fn) if isinstance(n, ast.Assign) and not any(n is s_ for s_ in lp.body)
+                     for t_ in n.targets for et_ in [entry_target(t_)] if et_ is not None}
+        decided = not any(nm in unkeyed or nm in elsewhere or nm in misplaced for nm, _ in missing) and all(role.get(c_) for c_ in role)
         chk.ob("F4-weak-form", lp, "assembly statements", False if decided else None,
                f"no assembly statement for {sorted(missing)}" + (": these diagonals stay zero" if decided else
                                                                   " in the recognised form (written elsewhere?)"), file=U.POISSON, func=q)
-    # symmetric forms: lower diagonals are references to the upper ones
-    for nm in ("massCoeffs", "k2PhiPsiCoeffs", "PhiPsiCoeffs"):
-        base = nm
-        r_ = env.reaching(nm, lp)
+    # symmetric forms: lower diagonals are references to the upper ones, or the mirrored entry is written with the same integral
+    by_role = {v_: k_ for k_, v_ in role.items() if v_ and scheme.get(k_) and k_ in {c_[1] for c_ in conts.values()}}
+    for nm in SYM:
+        cont = by_role.get(nm, nm)
+        if scheme.get(cont) == "matrix":
+            both = (nm, UP) in block_got and (nm, LOW) in block_got
+            bad = None
+            if (nm, UP) in seen and (nm, LOW) not in seen and nm not in unkeyed:
+                bad = (f"only the entries ({iv}, {sjn}) of `{cont}` are written: the entries below the diagonal of this symmetric block "
+                       "stay zero, the matrix is not the symmetric form")
+            chk.pat("F4-symmetric-storage", fn, f"{cont}[i, s_j] and {cont}[s_j, i]", both,
+                    "the entry and its mirror image are written with the same (symmetric) integral", bad, file=U.POISSON, func=q)
+            continue
+        base = cont
+        r_ = env.reaching(cont, lp)
         if r_[0] == "def" and isinstance(r_[2], ast.Name):
             base = r_[2].id                      # the list under the name it was built with
         ok = contains(fn, f"{base}.extend({base}[-2::-1])")
         bad = None
+        if not ok and (nm, UP) in block_got and (nm, LOW) in block_got:
+            ok = True                            # the lower diagonals are filled by their own statements (judged as entries)
         if not ok:
-            defs = [n for n in ast.walk(fn) if isinstance(n, ast.Assign) and src(n.targets[0]) == nm]
+            defs = [n for n in ast.walk(fn) if isinstance(n, ast.Assign) and src(n.targets[0]) == cont]
             ext = [n for n in ast.walk(fn) if isinstance(n, ast.Call) and isinstance(n.func, ast.Attribute)
-                   and src(n.func.value) == nm and n.func.attr in ("extend", "append", "insert")]
-            aug = [n for n in ast.walk(fn) if isinstance(n, ast.AugAssign) and src(n.target) == nm]
+                   and src(n.func.value) == cont and n.func.attr in ("extend", "append", "insert")]
+            aug = [n for n in ast.walk(fn) if isinstance(n, ast.AugAssign) and src(n.target) == cont]
             full = len(defs) == 1 and isinstance(defs[0].value, ast.ListComp) and \
                 same_expr(env.x(defs[0].value.generators[0].iter, use=defs[0]), f"range(-{DEG}, {DEG} + 1)")
             if full and not ext and not aug and (nm, LOW) not in seen and nm not in unkeyed and (nm, UP) in seen:
-                bad = (f"`{nm}` is created with 2*degree+1 independent diagonals and the assembly fills only the upper ones: the lower "
+                bad = (f"`{cont}` is created with 2*degree+1 independent diagonals and the assembly fills only the upper ones: the lower "
                        "diagonals of this symmetric block stay zero, the matrix is not the symmetric form")
         chk.pat("F4-symmetric-storage", fn, f"{nm}.extend({nm}[-2::-1])", ok,
                 "lower diagonals alias the upper ones (symmetric form filled once)", bad, file=U.POISSON, func=q)
@@ -1196,7 +1315,8 @@ def assembly(chk):
             tot = 0
             want = spec[("dPhidPsiCoeffs", diag)] + spec[("dPhiPsiCoeffs", diag)] + spec[("PhiPsiCoeffs", UP)]
             for a_, c_ in vec.items():
-                key = (lists[a_], diag) if (lists[a_], diag) in block_got else (lists[a_], UP)
+                ln_ = role.get(lists[a_]) or lists[a_]
+                key = (ln_, diag) if (ln_, diag) in block_got else (ln_, UP)
                 if key not in block_got:
                     ok = None
                     why = f"integrand of block {a_} not extracted"
@@ -1217,6 +1337,11 @@ def assembly(chk):
     for n in ast.walk(fn):
         if not (isinstance(n, ast.Assign) and src(n.targets[0]) in BLOCKS):
             continue
+        if conts.get(src(n.targets[0]), ("", "", None))[0] == "matrix" and conts[src(n.targets[0])][2] is n:
+            chk.ob("F4-operator", n, f"{src(n.targets[0])} = <matrix of entries>.tocsc()", True,
+                   "the block is the matrix whose entries were written at their (row, column) positions, converted to a sliceable format",
+                   file=U.POISSON, func=q)
+            continue
         c = _diags_call(env.x(n.value, stop=set(LISTS), use=n))
         okd = None
         if c is not None and c.args and isinstance(c.args[0], ast.Name) and c.args[0].id in offsets and offsets[c.args[0].id][2] is n:
@@ -1235,6 +1360,251 @@ ENTRIES = ((CLS, "solveEquation", "_solveMode"), (CLS, "solveEquationForFunction
 TABLES = ("self._mVals", "self._stiffness_range", "self._coeff_range")
 
 
+NEUMANN_LISTS = ("lNeumannIdx", "uNeumannIdx")
+
+
+class ModeTables:
+    """which power of the mode number m the per-mode number tables of the solver hold, statement by statement of the
+    constructor.  `self._mVals = <mode numbers>` holds m (power 1); `T *= T`, `T **= 2`, `self._X = T * T`, np.square(T) ...
+    hold the corresponding power; any other modification makes the power unknown (None)."""
+
+    ROOT = "self._mVals"
+
+    def __init__(self, chk):
+        self.fn = fn = flat_view(chk, U.POISSON, CLS, "__init__")
+        self.env = env = env_of(chk, fn)
+        self.hist = {}
+        stmts = sorted((n for n in ast.walk(fn) if isinstance(n, ast.stmt) and id(n) in env.order), key=lambda n: env.order[id(n)])
+        elementwise = {}
+        for st in stmts:
+            o = env.order[id(st)]
+            nested = parent(st) is not fn
+            lp = parent(st)
+            if isinstance(lp, ast.For) and parent(lp) is fn and len(lp.body) == 1 and not lp.orelse and isinstance(lp.target, ast.Name) and \
+                    isinstance(st, (ast.Assign, ast.AugAssign)):
+                # `for k in range(n): T[k] = T[k] ** 2` over every position is the whole-table update `T **= 2`
+                t = st.targets[0] if isinstance(st, ast.Assign) and len(st.targets) == 1 else getattr(st, "target", None)
+                k_ = lp.target.id
+                it = env.x(lp.iter, use=lp)
+                if isinstance(t, ast.Subscript) and src(t.value) in self.hist and src(t.slice) == k_ and isinstance(it, ast.Call) and \
+                        src(it.func) == "range" and len(it.args) == 1 and not it.keywords and \
+                        src(it.args[0]).replace(" ", "") in ("nTheta", f"len({src(t.value)})", f"{src(t.value)}.size", f"{src(t.value)}.shape[0]"):
+                    T = src(t.value)
+                    prev = self.at(T, o)
+                    val = env.x(st.value, stop={k_}, use=st)
+                    others = [x for x in ast.walk(val) if isinstance(x, ast.Subscript) and src(x.value) in self.hist and src(x.slice) != k_]
+                    new = None
+                    if prev is not None and not others:
+                        if isinstance(st, ast.Assign):
+                            new = self.power(val, o)
+                        elif isinstance(st.op, ast.Mult):
+                            q = self.power(val, o)
+                            new = prev + q if q is not None else None
+                        elif isinstance(st.op, ast.Pow) and isinstance(st.value, ast.Constant) and isinstance(st.value.value, int) and st.value.value > 0:
+                            new = prev * st.value.value
+                    self._rec(T, o, new, st)
+                    continue
+            if isinstance(st, ast.Assign):
+                for t in st.targets:
+                    if isinstance(t, ast.Attribute):
+                        T = src(t)
+                        v = env.x(st.value, use=st)
+                        mentions = [a for a in self._tracked_in(v)]
+                        if mentions:
+                            pw = self.power(v, o)
+                            self._rec(T, o, None if nested else pw, st)
+                        elif T == self.ROOT and T not in self.hist:
+                            self._rec(T, o, None if nested else 1, st)
+                        elif T in self.hist:
+                            self._rec(T, o, None, st)
+                    elif isinstance(t, ast.Subscript) and src(t.value) in self.hist:
+                        self._rec(src(t.value), o, None, st)
+            elif isinstance(st, ast.AugAssign):
+                t = st.target
+                if isinstance(t, ast.Attribute) and src(t) in self.hist:
+                    T = src(t)
+                    prev = self.at(T, o)
+                    new = None
+                    if prev is not None and not nested:
+                        if isinstance(st.op, ast.Mult):
+                            q = self.power(env.x(st.value, use=st), o)
+                            new = prev + q if q is not None else None
+                        elif isinstance(st.op, ast.Pow) and isinstance(st.value, ast.Constant) and isinstance(st.value.value, int) \
+                                and not isinstance(st.value.value, bool) and st.value.value > 0:
+                            new = prev * st.value.value
+                    self._rec(T, o, new, st)
+                elif isinstance(t, ast.Subscript) and src(t.value) in self.hist:
+                    self._rec(src(t.value), o, None, st)
+            else:
+                # in-place library calls: np.square(T, out=T) and the like
+                for e in _own_exprs(st):
+                    for c in ast.walk(e):
+                        if isinstance(c, ast.Call):
+                            out = next((k.value for k in c.keywords if k.arg == "out"), None)
+                            if out is not None and src(out) in self.hist:
+                                pw = self.power(ast.Call(func=c.func, args=c.args, keywords=[]), o)
+                                self._rec(src(out), o, None if nested else pw, st)
+        # the tables are constructor state: a store from another method makes the power seen by the solves unknown
+        self.foreign = []
+        mod = chk.mod(U.POISSON)
+        for c in mod.tree.body:
+            if isinstance(c, ast.ClassDef) and c.name in (CLS, QNC):
+                for m_ in c.body:
+                    if isinstance(m_, ast.FunctionDef) and not (c.name == CLS and m_.name == "__init__"):
+                        for n in ast.walk(m_):
+                            if isinstance(n, (ast.Assign, ast.AugAssign)):
+                                for t in (n.targets if isinstance(n, ast.Assign) else [n.target]):
+                                    b = t
+                                    while isinstance(b, ast.Subscript):
+                                        b = b.value
+                                    if src(b) in self.hist:
+                                        self.foreign.append((src(b), f"{c.name}.{m_.name}", n))
+
+    def _rec(self, T, o, pw, st):
+        self.hist.setdefault(T, []).append((o, pw, st))
+
+    def _tracked_in(self, e):
+        return [src(n) for n in ast.walk(e) if isinstance(n, ast.Attribute) and src(n) in self.hist]
+
+    def tables(self):
+        return set(self.hist)
+
+    def at(self, T, order):
+        """power held by table T just before the statement numbered `order`"""
+        prior = [h for h in self.hist.get(T, []) if h[0] < order]
+        return prior[-1][1] if prior else None
+
+    def final(self, T):
+        if any(f[0] == T for f in self.foreign):
+            return None
+        h = self.hist.get(T)
+        return h[-1][1] if h else None
+
+    def changes(self, T):
+        """the statements that changed the power of T after its definition"""
+        return [h[2] for h in self.hist.get(T, [])[1:]]
+
+    def power(self, e, order):
+        """power of m of an expression over the tables (elementwise monomial), None when it is not one"""
+        if isinstance(e, ast.Attribute) and src(e) in self.hist:
+            return self.at(src(e), order)
+        if isinstance(e, ast.Subscript):
+            return self.power(e.value, order)
+        if isinstance(e, ast.BinOp) and isinstance(e.op, ast.Mult):
+            a, b = self.power(e.left, order), self.power(e.right, order)
+            return a + b if a is not None and b is not None else None
+        if isinstance(e, ast.BinOp) and isinstance(e.op, ast.Pow) and isinstance(e.right, ast.Constant) and isinstance(e.right.value, int) \
+                and not isinstance(e.right.value, bool) and e.right.value > 0:
+            a = self.power(e.left, order)
+            return a * e.right.value if a is not None else None
+        if isinstance(e, ast.Call) and not e.keywords:
+            f = src(e.func)
+            if f in ("np.square", "numpy.square") and len(e.args) == 1:
+                a = self.power(e.args[0], order)
+                return 2 * a if a is not None else None
+            if f in ("np.power", "numpy.power") and len(e.args) == 2 and isinstance(e.args[1], ast.Constant) \
+                    and isinstance(e.args[1].value, int) and e.args[1].value > 0:
+                a = self.power(e.args[0], order)
+                return a * e.args[1].value if a is not None else None
+            if f in ("np.multiply", "numpy.multiply") and len(e.args) == 2:
+                a, b = self.power(e.args[0], order), self.power(e.args[1], order)
+                return a + b if a is not None and b is not None else None
+            if f in ("np.array", "np.asarray", "np.copy", "numpy.array", "numpy.asarray", "numpy.copy") and len(e.args) == 1:
+                return self.power(e.args[0], order)
+            if isinstance(e.func, ast.Attribute) and e.func.attr in ("copy", "astype"):
+                return self.power(e.func.value, order)
+        return None
+
+
+def mode_tables(chk):
+    cache = chk.__dict__.setdefault("_c14_modetables", [])
+    if not cache:
+        cache.append(ModeTables(chk))
+    return cache[0]
+
+
+def _binder_iter(node, name):
+    """the iterable whose elements the name denotes at `node`: the generator of an enclosing comprehension or the header of an
+    enclosing for loop that binds it, else None"""
+    cur, p = node, parent(node)
+    while p is not None:
+        if isinstance(p, (ast.ListComp, ast.SetComp, ast.GeneratorExp, ast.DictComp)):
+            for g in p.generators:
+                if isinstance(g.target, ast.Name) and g.target.id == name:
+                    return g.iter, p
+        elif isinstance(p, (ast.For, ast.AsyncFor)) and isinstance(p.target, ast.Name) and p.target.id == name and \
+                any(cur is x for x in p.body):
+            return p.iter, p
+        elif isinstance(p, (ast.FunctionDef, ast.Lambda)):
+            break
+        cur, p = p, parent(p)
+    return None, None
+
+
+def membership_order(chk):
+    """the Neumann lists hold signed mode numbers m: every test `x in lNeumannIdx / uNeumannIdx` on an entry of a mode-number
+    table must read a table that holds m (power 1) at that point of the constructor"""
+    mt = mode_tables(chk)
+    fn, env = mt.fn, mt.env
+    q = f"{CLS}.__init__"
+    seen = {}
+    for c in ast.walk(fn):
+        if not (isinstance(c, ast.Compare) and len(c.ops) == 1 and isinstance(c.ops[0], (ast.In, ast.NotIn))):
+            continue
+        lst = c.comparators[0]
+        while isinstance(lst, ast.Call) and len(lst.args) == 1 and src(lst.func) in ("set", "list", "tuple", "frozenset"):
+            lst = lst.args[0]
+        if src(lst) not in NEUMANN_LISTS:
+            continue
+        st = _stmt_of(c)
+        if st is None or id(st) not in env.order:
+            continue
+        o = env.order[id(st)]
+        left = c.left
+        pw, table = "skip", None
+        if isinstance(left, ast.Name):
+            it, _ = _binder_iter(c, left.id)
+            if it is None:
+                ex = env.x(left, use=st)
+                if isinstance(ex, ast.Subscript) and mt._tracked_in(ex):
+                    table, pw = src(ex.value), mt.power(ex, o)
+                elif mt._tracked_in(ex):
+                    table, pw = src(ex), None
+            else:
+                itx = env.x(it, use=st)
+                tr = mt._tracked_in(itx)
+                if tr:
+                    table, pw = src(itx), mt.power(itx, o)
+        else:
+            ex = env.x(left, use=st)
+            if mt._tracked_in(ex):
+                table, pw = src(ex), mt.power(ex, o)
+        if pw == "skip":
+            continue
+        key = id(st)
+        prev = seen.get(key)
+        # one verdict per statement: the worst of its tests
+        rank = {True: 0, None: 1, False: 2}
+        verdict = True if pw == 1 else (False if isinstance(pw, int) and pw > 1 else None)
+        if prev is None or rank[verdict] > rank[prev[0]]:
+            seen[key] = (verdict, st, table, pw, src(c))
+    for verdict, st, table, pw, text in seen.values():
+        if verdict is True:
+            why = f"`{text}` reads `{table}` while it holds the signed mode numbers m"
+        elif verdict is False:
+            ch = [x for x in mt.changes(table.split("[")[0]) if env.before(x, st)] if table else []
+            why = (f"`{text}` tests the entries of `{table}` against the Neumann lists after "
+                   f"`{src(ch[-1])[:50] if ch else 'the squaring'}`: the lists hold mode numbers m but the table holds m^{pw} at this point, "
+                   "so only the modes with m^%d == m (0 and 1) are recognised; a Neumann condition requested for any other mode is "
+                   "not seen" % pw)
+        else:
+            why = f"`{text}`: the power of the mode number held by `{table}` at this point could not be determined"
+        chk.ob("F4-mode-bookkeeping", st, f"Neumann membership decided on m: {src(st)[:60]}", verdict, why, file=U.POISSON, func=q)
+    if not seen:
+        chk.ob("F4-mode-bookkeeping", fn, "Neumann membership decided on m", None,
+               "no membership test of a mode number in lNeumannIdx / uNeumannIdx found in the constructor", file=U.POISSON, func=q)
+
+
 def mode_loop(chk, cls, m):
     """(view, loop, local index name, global index name) of the per-mode loop of an entry point, or (view, None, ..)"""
     fn = flat_view(chk, U.POISSON, cls, m)
@@ -1244,6 +1614,18 @@ def mode_loop(chk, cls, m):
         if isinstance(lp.target, ast.Tuple) and len(lp.target.elts) == 2 and isinstance(it, ast.Call) and src(it.func) == "enumerate" \
                 and it.args and src(it.args[0]).replace(" ", "") in ("rho.getGlobalIdxVals(0)", "phi.getGlobalIdxVals(0)"):
             return fn, lp, src(lp.target.elts[0]), src(lp.target.elts[1])
+    # the loop runs over the global index and the local one is derived: i = I - <grid>.getLayout(<grid>.currentLayout).starts[0]
+    for lp in [n for n in ast.walk(fn) if isinstance(n, ast.For)]:
+        it = env.x(lp.iter)
+        if isinstance(lp.target, ast.Name) and src(it).replace(" ", "") in ("rho.getGlobalIdxVals(0)", "phi.getGlobalIdxVals(0)"):
+            gi = lp.target.id
+            g = src(it).split(".")[0]
+            for st in lp.body:
+                if isinstance(st, ast.Assign) and len(st.targets) == 1 and isinstance(st.targets[0], ast.Name):
+                    v = env.x(st.value, use=st)
+                    if same_expr(v, f"{gi} - {g}.getLayout({g}.currentLayout).starts[0]") and not env.amb:
+                        return fn, lp, st.targets[0].id, gi
+            return fn, lp, None, gi
     # the global index computed from the local one: I = <grid>.getLayout(<grid>.currentLayout).starts[0] + i
     for lp in [n for n in ast.walk(fn) if isinstance(n, ast.For)]:
         it = env.x(lp.iter)
@@ -1280,28 +1662,375 @@ def _reset_targets(st):
     return out
 
 
-def neumann_tables(chk, fn_init):
-    q = f"{CLS}.__init__"
-    uses = [n for n in ast.walk(fn_init) if isinstance(n, ast.Assign) and src(n.targets[0]) in ("self._coeff_range", "self._stiffness_range")]
-    for u in uses:
-        v = u.value
-        ok, bad = False, None
-        if isinstance(v, ast.ListComp) and len(v.generators) == 1 and isinstance(v.generators[0].target, ast.Name) \
-                and isinstance(v.elt, ast.Call) and src(v.elt.func) == "slice" and len(v.elt.args) == 2:
-            var = v.generators[0].target.id
-            it = src(v.generators[0].iter)
+def _members(e, var):
+    """the Neumann lists in which the loop variable is looked up inside an expression"""
+    out = set()
+    for c in ast.walk(e):
+        if isinstance(c, ast.Compare) and len(c.ops) == 1 and isinstance(c.ops[0], (ast.In, ast.NotIn)) and src(c.left) == var:
+            lst = c.comparators[0]
+            while isinstance(lst, ast.Call) and len(lst.args) == 1 and src(lst.func) in ("set", "list", "tuple", "frozenset"):
+                lst = lst.args[0]
+            out.add(src(lst))
+    return out
 
-            def members(e):
-                return {src(c.comparators[0]) for c in ast.walk(e) if isinstance(c, ast.Compare) and len(c.ops) == 1
-                        and isinstance(c.ops[0], ast.In) and src(c.left) == var}
-            lo, hi = members(v.elt.args[0]), members(v.elt.args[1])
-            ok = it == "self._mVals" and lo == {"lNeumannIdx"} and hi == {"uNeumannIdx"}
-            if not ok and it == "self._mVals" and lo == {"uNeumannIdx"} and hi == {"lNeumannIdx"}:
+
+def range_tables(chk, fn_init, ints=False):
+    """the per-mode tables of slices (ints=True: also of integer bounds decided by the Neumann lists) built by the constructor: [(table text, site, loop variable, iterable, slice call)].
+    Forms followed: `self._T = [slice(a, b) for m in <modes>]` and `self._T = []; for m in <modes>: ...; self._T.append(slice(a, b))`
+    (locals of the loop body expanded to their definitions)."""
+    env = env_of(chk, fn_init)
+    out = []
+    for n in ast.walk(fn_init):
+        comp = n.value if isinstance(n, ast.Assign) else None
+        while isinstance(comp, ast.Call) and len(comp.args) >= 1 and src(comp.func) in ("np.array", "np.asarray", "numpy.array", "numpy.asarray",
+                                                                                     "list", "tuple"):
+            comp = comp.args[0]         # the table as an array of its elements
+        if isinstance(n, ast.Assign) and isinstance(n.targets[0], ast.Attribute) and isinstance(comp, ast.ListComp) \
+                and len(comp.generators) == 1 and isinstance(comp.generators[0].target, ast.Name) and not comp.generators[0].ifs:
+            elt = comp.elt
+            g = comp.generators[0]
+            if isinstance(elt, ast.Call) and src(elt.func) == "slice" and len(elt.args) == 2 and not elt.keywords:
+                out.append((src(n.targets[0]), n, g.target.id, env.x(g.iter, use=n), elt))
+            elif ints and _members(elt, g.target.id):
+                out.append((src(n.targets[0]), n, g.target.id, env.x(g.iter, use=n), elt))
+        elif isinstance(n, ast.Expr) and isinstance(n.value, ast.Call) and isinstance(n.value.func, ast.Attribute) \
+                and n.value.func.attr == "append" and isinstance(n.value.func.value, ast.Attribute) and len(n.value.args) == 1:
+            lp = parent(n)
+            if not (isinstance(lp, ast.For) and isinstance(lp.target, ast.Name) and any(n is x for x in lp.body)):
+                continue
+            T = src(n.value.func.value)
+            init = [d for d in ast.walk(fn_init) if isinstance(d, ast.Assign) and src(d.targets[0]) == T]
+            if len(init) != 1 or not (isinstance(init[0].value, ast.List) and not init[0].value.elts) or not env.before(init[0], lp) \
+                    or parent(init[0]) is not parent(lp):
+                continue
+            el = env.x(n.value.args[0], stop={lp.target.id}, use=n)
+            if isinstance(el, ast.Call) and src(el.func) == "slice" and len(el.args) == 2 and not el.keywords and not env.amb:
+                out.append((T, lp, lp.target.id, env.x(lp.iter, use=lp), el))
+    return out
+
+
+def neumann_tables(chk, fn_init):
+    """every per-mode table of slices is, for every combination of boundary conditions, the range of the unknowns of the mode:
+    absolute (an index range of the coefficient vector) or relative to the rows the blocks are stored with"""
+    q = f"{CLS}.__init__"
+    R = ranges_of(chk)
+    names = set()
+    for T, (site, var, sl) in R.tables.items():
+        names.add(T)
+        at = R.env.order.get(id(site), 10 ** 9)
+        ok, why, bad = None, "", None
+        try:
+            def table(f):
+                return R.rng(sl, f, at, var, NB_SYM)
+
+            def stored(f):
+                return R.window(ast.parse("self._k2PhiPsi", mode="eval").body, f)[0]
+            if all(_same_range(table(f), unknowns_of(f)) for f in FLAG_CASES):
+                ok, why = True, "one slice per mode: the unknowns of the mode as an index range of the coefficient vector"
+            else:
+                rel = None
+                try:
+                    rel = all(_same_range(Ranges.compose(stored(f), table(f)), unknowns_of(f)) for f in FLAG_CASES)
+                except KeyError:
+                    pass
+                if rel:
+                    ok, why = True, "one slice per mode: the unknowns of the mode relative to the rows / columns the blocks are stored with"
+                else:
+                    swap = [dict(f, l=f["u"], u=f["l"], L=f["U"], U=f["L"]) for f in FLAG_CASES]
+                    flip = [dict(f, l=not f["l"], u=not f["u"]) for f in FLAG_CASES]
+                    for alt, text in ((swap, "the lower end of the slice is decided by the upper-boundary Neumann list and the upper end by the "
+                                       "lower-boundary list: modes get the boundary conditions of the opposite boundary"),
+                                      (flip, "the boundary unknown is kept for the modes that are NOT in the Neumann list and dropped for those "
+                                       "that are: Dirichlet and Neumann modes are exchanged")):
+                        try:
+                            if all(_same_range(table(g), unknowns_of(f)) for f, g in zip(FLAG_CASES, alt)) or (
+                                    rel is not None and all(_same_range(Ranges.compose(stored(f), table(g)), unknowns_of(f))
+                                                            for f, g in zip(FLAG_CASES, alt))):
+                                bad = text
+                                break
+                        except KeyError:
+                            pass
+                    if bad is None:
+                        f = next(f for f in FLAG_CASES if not _same_range(table(f), unknowns_of(f)))
+                        why = (f"for {_case_text(f)} the table holds {_fmt(table(f))}; the unknowns are {_fmt(unknowns_of(f))}: neither these "
+                               "nor their position among the stored rows - judged where the table is used")
+        except KeyError as e_:
+            why = "slice bounds not followed: " + str(e_).strip('"\'')
+        if ok is None and bad is None:
+            # the bounds could not be evaluated / matched: at least the lists each end depends on
+            lo, hi = _members(sl.args[0], var), _members(sl.args[-1], var)
+            if lo == {"uNeumannIdx"} and hi == {"lNeumannIdx"}:
                 bad = ("the lower end of the slice is decided by the upper-boundary Neumann list and the upper end by the lower-boundary "
                        "list: modes get the boundary conditions of the opposite boundary")
-        chk.pat("F4-mode-bookkeeping", u, src(u.targets[0]), ok, "one slice per mode, lower/upper Neumann membership decided per mode",
-                bad, file=U.POISSON, func=q)
-    return uses
+        if ok or bad:
+            chk.pat("F4-mode-bookkeeping", site, T, ok, why, bad, file=U.POISSON, func=q)
+        else:
+            chk.ob("F4-mode-bookkeeping", site, T, None, why, file=U.POISSON, func=q)
+    if not names:
+        chk.ob("F4-mode-bookkeeping", fn_init, "per-mode tables of unknowns", None,
+               "the construction of a per-mode table of unknowns (one slice per mode number) was not recognised", file=U.POISSON, func=q)
+    return names
+
+
+# =========================================================================================================
+# index ranges of the spline space as functions of the boundary conditions
+#
+# The rules on the per-mode restriction are relational: whatever window the blocks are stored with and whatever per-mode
+# tables of slices the constructor keeps, the rows and columns of the operator handed to the solve of mode I, the rows of the
+# mass matrix and the entries of the coefficient vector that receive the solution must all be the unknowns of mode I,
+#       [0 if m_I has a Neumann condition at the lower boundary else 1,  nb - (0 if ... at the upper boundary else 1)).
+# Ranges are evaluated symbolically in nb = self._rspline.nbasis, case by case over the four predicates the constructor
+# tests: L / U = "some mode has a Neumann condition at the lower / upper boundary" (the lists are not empty) and
+# l / u = "this mode is in the list" (l implies L, u implies U).
+# =========================================================================================================
+
+NB_SYM = sp.Symbol("nb")
+FLAG_CASES = [dict(L=L_, U=U_, l=l_, u=u_) for L_ in (False, True) for U_ in (False, True) for l_ in (False, True) for u_ in (False, True)
+              if (L_ or not l_) and (U_ or not u_)]
+
+
+def _case_text(f):
+    return (f"a mode with a {'Neumann' if f['l'] else 'Dirichlet'} condition at the lower and a {'Neumann' if f['u'] else 'Dirichlet'} "
+            f"condition at the upper boundary (Neumann modes exist at the lower boundary: {'yes' if f['L'] else 'no'}, at the upper: "
+            f"{'yes' if f['U'] else 'no'})")
+
+
+def unknowns_of(f):
+    return (sp.Integer(0 if f["l"] else 1), NB_SYM - (0 if f["u"] else 1))
+
+
+class Ranges:
+    def __init__(self, chk):
+        self.chk = chk
+        self.fn = flat_view(chk, U.POISSON, CLS, "__init__")
+        self.env = env_of(chk, self.fn)
+        self.mt = mode_tables(chk)
+        self.tables = {}
+        self.int_tables = {}
+        for T, site, var, it, sl in range_tables(chk, self.fn, ints=True):
+            if self.mt._tracked_in(it):
+                if isinstance(sl, ast.Call) and src(sl.func) == "slice":
+                    self.tables[T] = (site, var, sl)
+                else:
+                    self.int_tables[T] = (site, var, sl)
+        self.qn = flat_view(chk, U.POISSON, QNC, "__init__")
+
+    # -- predicates
+    def truth(self, e, f, var):
+        if isinstance(e, ast.UnaryOp) and isinstance(e.op, ast.Not):
+            return not self.truth(e.operand, f, var)
+        if isinstance(e, ast.BoolOp):
+            vals = [self.truth(v, f, var) for v in e.values]
+            return all(vals) if isinstance(e.op, ast.And) else any(vals)
+        if isinstance(e, ast.Name) and e.id in NEUMANN_LISTS:
+            return f["L" if e.id == "lNeumannIdx" else "U"]
+        if isinstance(e, ast.Compare) and len(e.ops) == 1:
+            op, a, b = e.ops[0], e.left, e.comparators[0]
+            if isinstance(op, (ast.In, ast.NotIn)) and _bare_list(b) in NEUMANN_LISTS and var is not None and src(a) == var:
+                v = f["l" if _bare_list(b) == "lNeumannIdx" else "u"]
+                return v if isinstance(op, ast.In) else not v
+            if isinstance(a, ast.Call) and src(a.func) == "len" and len(a.args) == 1 and src(a.args[0]) in NEUMANN_LISTS and \
+                    isinstance(b, ast.Constant) and b.value in (0, 1):
+                some = f["L" if src(a.args[0]) == "lNeumannIdx" else "U"]
+                if b.value == 0:
+                    r_ = {ast.Eq: not some, ast.NotEq: some, ast.Gt: some, ast.LtE: not some}.get(type(op))
+                else:
+                    r_ = {ast.GtE: some, ast.Lt: not some}.get(type(op))
+                if r_ is not None:
+                    return r_
+            if src(a) in NEUMANN_LISTS and isinstance(b, ast.List) and not b.elts and isinstance(op, (ast.Eq, ast.NotEq)):
+                some = f["L" if src(a) == "lNeumannIdx" else "U"]
+                return (not some) if isinstance(op, ast.Eq) else some
+        raise KeyError(f"condition `{src(e)[:50]}` is not a test on the Neumann lists")
+
+    # -- definitions of constructor locals / attributes under a case
+    def _live(self, st, f, var):
+        cur, p = st, parent(st)
+        while p is not None and p is not self.fn:
+            if isinstance(p, ast.If):
+                if self.truth(p.test, f, var) != any(cur is x for x in p.body):
+                    return False
+            elif isinstance(p, (ast.For, ast.While, ast.Try, ast.With)):
+                raise KeyError(f"`{src(st)[:40]}` is defined inside a loop / block")
+            cur, p = p, parent(p)
+        return True
+
+    def definition(self, key, f, before, var):
+        """value (syntax) of the constructor local / attribute `key` under case f, as seen by a statement numbered `before`"""
+        if "." in key:
+            cands = [(self.env.order[id(n)], n, n.value) for n in ast.walk(self.fn) if isinstance(n, ast.Assign) and id(n) in self.env.order
+                     and any(src(t) == key for t in n.targets)]
+            if any(isinstance(n, ast.AugAssign) and src(n.target) == key for n in ast.walk(self.fn)):
+                raise KeyError(f"`{key}` is updated in place")
+        else:
+            cands = list(self.env.bind.get(key, []))
+            if self.env.mut.get(key):
+                raise KeyError(f"`{key}` is updated in place")
+        live = [c for c in cands if c[0] < before and c[2] is not None and self._live(c[1], f, var)]
+        if any(c[2] is None for c in cands) or not live:
+            raise KeyError(f"no definition of `{key}` found")
+        return live[-1][2], live[-1][0]
+
+    # -- numbers
+    def num(self, e, f, at, var):
+        if isinstance(e, ast.Constant) and isinstance(e.value, (int, bool)):
+            return sp.Integer(int(e.value))
+        if isinstance(e, ast.BinOp) and type(e.op) in (ast.Add, ast.Sub, ast.Mult):
+            a, b = self.num(e.left, f, at, var), self.num(e.right, f, at, var)
+            return {ast.Add: a + b, ast.Sub: a - b, ast.Mult: a * b}[type(e.op)]
+        if isinstance(e, ast.UnaryOp) and isinstance(e.op, ast.USub):
+            return -self.num(e.operand, f, at, var)
+        if isinstance(e, ast.IfExp):
+            return self.num(e.body if self.truth(e.test, f, var) else e.orelse, f, at, var)
+        if isinstance(e, ast.Call) and src(e.func) in ("int", "bool") and len(e.args) == 1 and not e.keywords:
+            return self.num(e.args[0], f, at, var)
+        if isinstance(e, (ast.Compare, ast.BoolOp)) or (isinstance(e, ast.UnaryOp) and isinstance(e.op, ast.Not)):
+            return sp.Integer(1 if self.truth(e, f, var) else 0)
+        if isinstance(e, ast.Attribute) and src(e) in (NB, "rspline.nbasis"):
+            return NB_SYM
+        if isinstance(e, ast.Subscript) and src(e.value) in self.int_tables:
+            site, tvar, elt = self.int_tables[src(e.value)]
+            return self.num(elt, f, self.env.order.get(id(site), 10 ** 9), tvar)
+        if isinstance(e, (ast.Name, ast.Attribute)):
+            if isinstance(e, ast.Name) and e.id == var:
+                raise KeyError(f"the mode number `{var}` itself enters a bound")
+            v, o = self.definition(src(e), f, at, var)
+            return self.num(v, f, o, var)
+        raise KeyError(f"`{src(e)[:50]}` is not an integer expression of nbasis and the boundary conditions")
+
+    # -- ranges
+    def rng(self, e, f, at, var, length):
+        """(start, stop) selected by a slice expression out of an axis of `length` entries"""
+        def bound(x, default):
+            if x is None or (isinstance(x, ast.Constant) and x.value is None):
+                return default
+            v = self.num(x, f, at, var)
+            return length + v if v.is_number and v < 0 else v
+        if isinstance(e, ast.Slice):
+            if e.step is not None:
+                raise KeyError("slice with a step")
+            return bound(e.lower, sp.Integer(0)), bound(e.upper, length)
+        if isinstance(e, ast.Call) and src(e.func) == "slice" and not e.keywords and len(e.args) in (1, 2):
+            lo = e.args[0] if len(e.args) == 2 else None
+            return bound(lo, sp.Integer(0)), bound(e.args[-1], length)
+        if isinstance(e, ast.Subscript) and src(e.value) in self.tables:
+            site, tvar, sl = self.tables[src(e.value)]
+            return self.rng(sl, f, self.env.order.get(id(site), 10 ** 9), tvar, length)
+        if isinstance(e, (ast.Name, ast.Attribute)):
+            v, o = self.definition(src(e), f, at, var)
+            return self.rng(v, f, o, var, length)
+        raise KeyError(f"`{src(e)[:50]}` is not a slice of the spline space")
+
+    @staticmethod
+    def compose(win, sel):
+        return win[0] + sel[0], win[0] + sel[1]
+
+    def window(self, e, f, at=10 ** 9, depth=0):
+        """((row start, row stop), (column start, column stop)) of the full nb x nb matrix that a matrix expression holds"""
+        if depth > 12:
+            raise KeyError("definitions nested too deeply")
+        if isinstance(e, ast.Subscript):
+            rows, cols = self.window(e.value, f, at, depth + 1)
+            sl = e.slice
+            if not (isinstance(sl, ast.Tuple) and len(sl.elts) == 2):
+                raise KeyError(f"matrix indexed by `{src(sl)[:40]}`")
+            return (self.compose(rows, self.rng(sl.elts[0], f, at, None, rows[1] - rows[0])),
+                    self.compose(cols, self.rng(sl.elts[1], f, at, None, cols[1] - cols[0])))
+        if isinstance(e, ast.BinOp) and isinstance(e.op, (ast.Add, ast.Sub)):
+            a, b = self.window(e.left, f, at, depth + 1), self.window(e.right, f, at, depth + 1)
+            if any(sp.simplify(x - y) != 0 for ra, rb in zip(a, b) for x, y in zip(ra, rb)):
+                raise KeyError(f"`{src(e)[:60]}` combines matrices stored for different index ranges")
+            return a
+        if isinstance(e, ast.BinOp) and isinstance(e.op, ast.Mult):
+            sides = []
+            for x in (e.left, e.right):
+                try:
+                    sides.append(self.window(x, f, at, depth + 1))
+                except KeyError:
+                    pass
+            if len(sides) == 1:
+                return sides[0]
+            raise KeyError(f"`{src(e)[:60]}`: not a matrix scaled by a number")
+        if isinstance(e, ast.UnaryOp):
+            return self.window(e.operand, f, at, depth + 1)
+        if isinstance(e, ast.Call):
+            if _diags_call(e) is e or _matrix_source(e) is not None:
+                return (sp.Integer(0), NB_SYM), (sp.Integer(0), NB_SYM)
+            if isinstance(e.func, ast.Attribute) and e.func.attr in SPARSE_CONVERT:
+                return self.window(e.func.value, f, at, depth + 1)
+        if isinstance(e, ast.Attribute) and src(e) == "self._stiffness0":
+            # defined by the derived class under tests on the electron model / chi: every definition must hold the same range
+            defs = [n for n in ast.walk(self.qn) if isinstance(n, ast.Assign) and src(n.targets[0]) == "self._stiffness0"]
+            wins = [self.window(n.value, f, 10 ** 9, depth + 1) for n in defs]
+            if not wins or any(sp.simplify(x - y) != 0 for w in wins[1:] for ra, rb in zip(wins[0], w) for x, y in zip(ra, rb)):
+                raise KeyError("definitions of self._stiffness0 not found / stored for different index ranges")
+            return wins[0]
+        if isinstance(e, (ast.Name, ast.Attribute)):
+            v, o = self.definition(src(e), f, at, None)
+            return self.window(v, f, o, depth + 1)
+        raise KeyError(f"`{src(e)[:50]}` is not a matrix expression over the assembled blocks")
+
+
+def ranges_of(chk):
+    cache = chk.__dict__.setdefault("_c14_ranges", [])
+    if not cache:
+        cache.append(Ranges(chk))
+    return cache[0]
+
+
+def _same_range(a, b):
+    return sp.simplify(a[0] - b[0]) == 0 and sp.simplify(a[1] - b[1]) == 0
+
+
+def _fmt(r_):
+    return f"[{r_[0]}, {r_[1]})"
+
+
+def qn_mode0_case(chk):
+    """the predicates for the mode m = 0 of the quasi-neutrality solver, from the literal Neumann lists it is built with; None when
+    they are not literal"""
+    try:
+        from .C15 import base_init_calls, bound_arguments, _literal_set
+        fn, calls, formals = base_init_calls(chk)
+        env = env_of(chk, fn)
+        cases = []
+        for c in calls:
+            kw = bound_arguments(c, formals)
+            if kw is None:
+                return None
+            ls = _literal_set(env.x(kw["lNeumannIdx"], use=_stmt_of(c))) if "lNeumannIdx" in kw else set()
+            us = _literal_set(env.x(kw["uNeumannIdx"], use=_stmt_of(c))) if "uNeumannIdx" in kw else set()
+            if ls is None or us is None:
+                return None
+            cases.append(dict(L=bool(ls), U=bool(us), l=0 in ls, u=0 in us))
+        return cases or None
+    except Exception:
+        return None
+
+
+def restricted_to_unknowns(R, e, cases, want_cols=True):
+    """(True / False / None, diagnosis): does the matrix expression hold exactly the rows (and columns) of the unknowns of the mode,
+    for every case of the boundary conditions?  want_cols=False: the columns must be the whole spline space"""
+    try:
+        for f in cases:
+            rows, cols = R.window(e, f)
+            U_ = unknowns_of(f)
+            full = (sp.Integer(0), NB_SYM)
+            okr = _same_range(rows, U_)
+            okc = _same_range(cols, U_ if want_cols else full)
+            if okr and okc:
+                continue
+            if want_cols and (okr != okc) and any(isinstance(n, ast.Slice) and n.lower is None and n.upper is None for n in ast.walk(e)
+                                                   if isinstance(n, ast.Slice)):
+                return False, (f"restricted to the unknowns of the mode in one direction only (rows {_fmt(rows)}, columns {_fmt(cols)} "
+                               f"for {_case_text(f)}): the matrix handed to the solve is not square / keeps Dirichlet columns")
+            what_ = "rows" if not okr else "columns"
+            got_, need_ = (rows, U_) if not okr else (cols, U_ if want_cols else full)
+            return False, (f"for {_case_text(f)} `{src(e)[:70]}` holds the {what_} {_fmt(got_)} of the spline space where "
+                           f"{_fmt(need_)} {'(the unknowns of the mode)' if need_ is not full else '(every coefficient)'} is needed")
+        return True, ""
+    except KeyError as e_:
+        return None, str(e_).strip('"\'')
 
 
 def per_mode(chk):
@@ -1310,17 +2039,9 @@ def per_mode(chk):
     # the numbers tested against the Neumann lists are the transform's own mode numbers
     from .C15 import mode_numbers
     mode_numbers(chk)
-    # Neumann membership tests read the mode numbers before they are squared
-    sq = [n for n in fn_init.body if isinstance(n, ast.AugAssign) and src(n.target) == "self._mVals" and isinstance(n.op, (ast.Mult, ast.Pow))]
-    sq += [n for n in fn_init.body if isinstance(n, ast.Assign) and src(n.targets[0]) == "self._mVals" and "self._mVals" in src(n.value)]
-    uses = neumann_tables(chk, fn_init)
-    ok = len(uses) == 2 and all(env_i.before(u, q_) for u in uses for q_ in sq)
-    bad = None
-    if len(uses) == 2 and any(env_i.before(q_, u) for u in uses for q_ in sq):
-        bad = "mode numbers are squared before the per-mode boundary tables are built: Neumann membership is tested on m^2"
-    chk.pat("F4-mode-bookkeeping", sq[0] if sq else fn_init, "Neumann membership decided on m, before any squaring of self._mVals", ok,
-            "boundary-condition membership is decided on the signed mode numbers m", bad,
-            file=U.POISSON, func=f"{CLS}.__init__")
+    # Neumann membership tests read the mode numbers while the table holds m itself
+    neumann_tables(chk, fn_init)
+    membership_order(chk)
     # the derived solver's m=0 operator is built from the same blocks (their signs are this class's convention)
     from .C15 import m0_operator
     m0_operator(chk)
@@ -1373,35 +2094,92 @@ def per_mode(chk):
         chk.pat("F4-dirichlet-reset", lp, f"{cls}.{m}: self._coeffs[0] = self._coeffs[-1] = 0 before each mode", ok,
                 "both boundary coefficients are zeroed inside the per-mode loop before the solve, so a Neumann mode's boundary "
                 "value cannot leak into the next Dirichlet mode", bad, file=U.POISSON, func=f"{cls}.{m}")
+        # every mode of the local block is solved: no path through an iteration of the mode loop misses the per-mode solve
+        call_stmts = [s_ for s_ in ast.walk(lp) if isinstance(s_, (ast.Expr, ast.Assign, ast.Return)) and any(
+            isinstance(c, ast.Call) and isinstance(c.func, ast.Attribute) and c.func.attr == callee for c in ast.walk(s_))]
+        mp = _paths(lp.body, call_stmts) if call_stmts else None
+        if mp is None:
+            chk.ob("F4-output-complete", lp, f"{cls}.{m}: every mode of the local block is solved", None,
+                   "call of the per-mode solve not found / too many paths", file=U.POISSON, func=f"{cls}.{m}")
+        else:
+            v_, where_, why_ = True, lp, "every path through an iteration of the mode loop calls the per-mode solve"
+            for conds, got, end in mp:
+                if isinstance(end, ast.Raise) or any(k_ == "sure" for k_, _ in got) and not isinstance(end, (ast.Break, ast.Return)):
+                    continue
+                if any(k_ == "maybe" for k_, _ in got) and not isinstance(end, (ast.Break, ast.Return)):
+                    if v_ is True:
+                        v_, where_, why_ = None, lp, "the per-mode solve is called from a nested block: not followed"
+                    continue
+                lead = (src(conds[-1][2]) if conds else src(end if end is not None else lp)).splitlines()[0][:80]
+                others = [c for c in ast.walk(fn) if isinstance(c, ast.Call) and not (isinstance(c.func, ast.Attribute) and c.func.attr == callee)
+                          and any(isinstance(a_, ast.Name) and a_.id == "phi" for a_ in list(c.args) + [k.value for k in c.keywords])] + \
+                    [n for n in ast.walk(fn) if isinstance(n, (ast.Assign, ast.AugAssign)) and any(
+                        isinstance(t_, ast.Subscript) and src(env.x(t_.value, use=n)).startswith("phi.")
+                        for t_ in (n.targets if isinstance(n, ast.Assign) else [n.target]))]
+                if others:
+                    v_, where_, why_ = None, lp, (f"`{lead}` skips the per-mode solve, but phi is also written by `{src(others[0])[:60]}`: "
+                                                 "not followed")
+                    break
+                v_, where_ = False, (end if end is not None else (conds[-1][2] if conds else lp))
+                why_ = (f"`{lead}` lets an iteration of the mode loop end without the per-mode solve"
+                        f"{' (and leaves the loop)' if isinstance(end, (ast.Break, ast.Return)) else ''}: the lines of phi of the modes it "
+                        "skips keep whatever the buffer held, they are not the solution for this rho")
+                break
+            chk.ob("F4-output-complete", where_, f"{cls}.{m}: every mode of the local block is solved", v_, why_, file=U.POISSON, func=f"{cls}.{m}")
         # operator for mode I: restricted to the unknowns of the global mode index, every per-mode table read at that index
-        oko, bad = False, None
-        ops = [n for n in ast.walk(lp) if isinstance(n, (ast.Assign, ast.Expr, ast.Return))]
+        R = ranges_of(chk)
+        per_mode_tables = set(TABLES) | set(R.tables) | set(R.int_tables) | R.mt.tables()
+        oko, bad, und = False, None, None
         tabs = []
         for s_ in ast.walk(lp):
             if isinstance(s_, ast.stmt):
                 for e_ in _own_exprs(s_):
                     ex = env.x(e_, use=s_)
-                    tabs += [n for n in ast.walk(ex) if isinstance(n, ast.Subscript) and src(n.value) in TABLES]
+                    tabs += [n for n in ast.walk(ex) if isinstance(n, ast.Subscript) and src(n.value) in per_mode_tables]
         wrong = sorted({src(n) for n in tabs if src(n.slice) != gi})
         if wrong:
             bad = f"per-mode tables are looked up with {wrong} instead of the global mode index `{gi}`"
         else:
-            for s_ in ops:
-                for e_ in _own_exprs(s_):
-                    ex = env.x(e_, use=s_)
-                    for n in ast.walk(ex):
-                        if isinstance(n, ast.Subscript) and any(src(x) == "self._k2PhiPsi" for x in ast.walk(n.value)):
-                            sl = n.slice
-                            rng = f"self._stiffness_range[{gi}]"
-                            if isinstance(sl, ast.Tuple) and len(sl.elts) == 2 and all(src(e2) == rng for e2 in sl.elts) \
-                                    and any(src(x) == "self._stiffnessMatrix" for x in ast.walk(n.value)):
-                                oko = True
-                            elif isinstance(sl, ast.Tuple) and len(sl.elts) == 2 and {src(e2) for e2 in sl.elts} == {rng, ":"}:
-                                bad = (f"the operator of mode {gi} is restricted to the unknowns of the mode in one direction only "
-                                       f"(`[{src(sl)}]`): the matrix handed to the solve is not square / keeps Dirichlet columns")
-        chk.pat("F4-mode-operator", lp, f"{cls}.{m}: operator of mode I", oko,
-                "operator = (theta-independent operator - m_I^2 k2), restricted to the unknowns of mode I; every per-mode table is read at "
-                "the global mode index", bad, file=U.POISSON, func=f"{cls}.{m}")
+            # the matrix handed to the per-mode solve: the argument itself, or every definition of the local it names
+            cal = flat_view(chk, U.POISSON, CLS, callee)
+            cpar = [a_.arg for a_ in cal.args.args]
+            sites = []
+            for c in [c for c in ast.walk(lp) if isinstance(c, ast.Call) and isinstance(c.func, ast.Attribute) and c.func.attr == callee]:
+                arg = c.args[2] if len(c.args) > 2 else next((k.value for k in c.keywords if len(cpar) > 3 and k.arg == cpar[3]), None)
+                if arg is None:
+                    continue
+                if isinstance(arg, ast.Name) and arg.id in env.bind:
+                    sites += [(d[1], env.x(d[2], use=d[1])) for d in env.bind[arg.id] if d[2] is not None and any(d[1] is x for x in ast.walk(lp))]
+                else:
+                    sites.append((_stmt_of(c), env.x(arg, use=_stmt_of(c))))
+            generic = [(st_, ex) for st_, ex in sites if any(src(x) == "self._k2PhiPsi" for x in ast.walk(ex))]
+            special = [(st_, ex) for st_, ex in sites if not any(src(x) == "self._k2PhiPsi" for x in ast.walk(ex))]
+            verdicts = []
+            for st_, ex in generic:
+                v_, why_ = restricted_to_unknowns(R, ex, FLAG_CASES)
+                if v_ and not any(src(x) == "self._stiffnessMatrix" for x in ast.walk(ex)):
+                    v_, why_ = None, "the theta-independent operator self._stiffnessMatrix does not enter the operator of the mode"
+                verdicts.append((v_, why_, ex))
+            for st_, ex in special:
+                # an operator without the m^2 term: the mode m = 0 of the derived solver, whose boundary conditions are known
+                cases0 = qn_mode0_case(chk) if cls == QNC else None
+                v_, why_ = restricted_to_unknowns(R, ex, cases0) if cases0 else (None, "operator without the k2 block outside the m = 0 branch "
+                                                                                 "of the quasi-neutrality solver")
+                verdicts.append((v_, why_, ex))
+            if any(v_ is False for v_, _, _ in verdicts):
+                v_, why_, ex = [x for x in verdicts if x[0] is False][0]
+                bad = f"the operator of mode {gi}, `{src(ex)[:70]}`, is " + why_ if why_.startswith("restricted") else why_
+            elif verdicts and generic and all(v_ is True for v_, _, _ in verdicts):
+                oko = True
+            elif verdicts:
+                und = [why_ for v_, why_, _ in verdicts if v_ is None]
+        if bad or oko or not und:
+            chk.pat("F4-mode-operator", lp, f"{cls}.{m}: operator of mode I", oko,
+                    "operator = (theta-independent operator - m_I^2 k2); its rows and columns are the unknowns of mode I for every combination "
+                    "of boundary conditions; every per-mode table is read at the global mode index", bad, file=U.POISSON, func=f"{cls}.{m}")
+        else:
+            chk.ob("F4-mode-operator", lp, f"{cls}.{m}: operator of mode I", None, "restriction of the operator not followed: " + und[0],
+                   file=U.POISSON, func=f"{cls}.{m}")
     mode_solve(chk)
     output_complete(chk)
 
@@ -1416,17 +2194,47 @@ def mode_solve(chk):
     li, gi = (pr[4], pr[5]) if len(pr) >= 6 else ("i", "I")
     solves = [n for n in ast.walk(sm) if isinstance(n, ast.Assign) and isinstance(n.value, ast.Call)
               and src(n.value.func).split(".")[-1] == "spsolve" and len(n.value.args) == 2]
-    ok, bad = False, None
+    ok, bad, und = False, None, []
     if len(solves) == 1:
         st = solves[0]
         tgt = env.x(st.targets[0], use=st)
         mat = env.x(st.value.args[0], use=st)
         rhs = env.x(st.value.args[1], use=st)
         ts = src(tgt).replace(" ", "")
-        ok_t = ts in (f"self._coeffs[self._coeff_range[{gi}]][:]", f"self._coeffs[self._coeff_range[{gi}]]")
+        R = ranges_of(chk)
+        tables_ = set(TABLES) | set(R.tables) | set(R.int_tables) | R.mt.tables()
+        # where the solution goes: the entries of the coefficient vector that are the unknowns of the mode
+        t0 = tgt
+        if isinstance(t0, ast.Subscript) and isinstance(t0.slice, ast.Slice) and t0.slice.lower is None and t0.slice.upper is None \
+                and t0.slice.step is None and isinstance(t0.value, ast.Subscript):
+            t0 = t0.value
+        ok_t, why_t = None, f"the solution is stored in `{src(tgt)[:50]}`: not an index range of self._coeffs"
+        if isinstance(t0, ast.Subscript) and src(t0.value) == "self._coeffs":
+            try:
+                ok_t, why_t = True, ""
+                for f in FLAG_CASES:
+                    got_ = R.rng(t0.slice, f, 10 ** 9, None, NB_SYM)
+                    if not _same_range(got_, unknowns_of(f)):
+                        ok_t = False
+                        why_t = (f"the solution is written to the entries {_fmt(got_)} of self._coeffs for {_case_text(f)}, the unknowns of the "
+                                 f"mode are {_fmt(unknowns_of(f))}: the coefficients are shifted / a boundary coefficient is overwritten")
+                        break
+            except KeyError as e_:
+                ok_t, why_t = None, str(e_).strip('"\'')
         ok_m = src(mat) == (pr[3] if len(pr) >= 6 else "stiffnessMatrix")
-        ok_r = same_expr(rhs, f"self._massMatrix[self._stiffness_range[{gi}], :].dot(self._spline.coeffs)") or \
-            same_expr(rhs, f"self._massMatrix[self._stiffness_range[{gi}], :] @ self._spline.coeffs")
+        # the right-hand side: the rows of the mass matrix that belong to the unknowns, applied to every coefficient of rho
+        ok_r, why_r = None, f"right-hand side `{src(rhs)[:60]}` is not the mass matrix applied to the coefficients of rho"
+        mexp = None
+        if isinstance(rhs, ast.Call) and isinstance(rhs.func, ast.Attribute) and rhs.func.attr == "dot" and len(rhs.args) == 1 \
+                and src(rhs.args[0]) == "self._spline.coeffs":
+            mexp = rhs.func.value
+        elif isinstance(rhs, ast.BinOp) and isinstance(rhs.op, ast.MatMult) and src(rhs.right) == "self._spline.coeffs":
+            mexp = rhs.left
+        if mexp is not None and any(src(x) == "self._massMatrix" for x in ast.walk(mexp)) and \
+                not any(isinstance(x, ast.Attribute) and src(x) in BLOCKS and src(x) != "self._massMatrix" for x in ast.walk(mexp)):
+            ok_r, why_r = restricted_to_unknowns(R, mexp, FLAG_CASES, want_cols=False)
+            if ok_r is False:
+                why_r = "the right-hand side of the solve takes the wrong rows / columns of the mass matrix: " + why_r
         zl = [n for n in ast.walk(sm) if isinstance(n, ast.For) and any(st is x for x in ast.walk(n))]
         jn = None
         if zl and isinstance(zl[0].target, ast.Tuple) and zl[0].target.elts and isinstance(zl[0].target.elts[0], ast.Name):
@@ -1437,32 +2245,78 @@ def mode_solve(chk):
             a0 = env.x(interp[0].args[0], use=_stmt_of(interp[0]))
             ok_i = src(interp[0].func.value) == "self._interpolator" and src(a0).replace(" ", "") == f"rho.get1DSlice({li},{jn})" \
                 and src(env.x(interp[0].args[1], use=_stmt_of(interp[0]))) == "self._spline" and env.before(interp[0], st)
-        ok = ok_t and ok_m and ok_r and ok_i
+        ok = bool(ok_t and ok_m and ok_r and ok_i)
         if not ok:
             rs = src(rhs)
             wrong_idx = sorted({src(n) for e_ in (tgt, rhs) for n in ast.walk(e_) if isinstance(n, ast.Subscript)
-                                and src(n.value) in TABLES and src(n.slice) != gi})
+                                and src(n.value) in tables_ and src(n.slice) != gi})
             if wrong_idx:
                 bad = f"per-mode tables are looked up with {wrong_idx} instead of the global mode index `{gi}`"
             elif "self._spline.coeffs" in rs and "_massMatrix" not in rs and isinstance(rhs, (ast.Attribute, ast.Subscript)):
                 bad = ("the right-hand side of the solve is the coefficient vector of rho itself, not the mass matrix applied to it: "
                        "the equation solved is S phi = c(rho) instead of S phi = M c(rho)")
-            elif ts.startswith("self._coeffs[self._stiffness_range["):
-                bad = ("the solution is written to self._coeffs at the operator's row range instead of the mode's coefficient range: "
-                       "with a Dirichlet lower boundary every coefficient is shifted by one")
-    chk.pat("F4-mode-solve", solves[0] if len(solves) == 1 else sm, "_solveMode: coeffs[range_I] = S^-1 M[range_I,:] c(rho)", ok,
-            "right-hand side is the mass matrix applied to the spline coefficients of rho; the solution fills the mode's unknowns, "
-            "Dirichlet entries keep their zero", bad, file=U.POISSON, func=q)
+            elif ok_t is False:
+                bad = why_t
+            elif ok_r is False:
+                bad = why_r
+            elif ok_m and ok_i:
+                und = [w_ for v_, w_ in ((ok_t, why_t), (ok_r, why_r)) if v_ is None]
+    if not ok and not bad and und:
+        chk.ob("F4-mode-solve", solves[0] if len(solves) == 1 else sm, "_solveMode: coeffs[range_I] = S^-1 M[range_I,:] c(rho)", None,
+               "not followed: " + und[0], file=U.POISSON, func=q)
+    else:
+        chk.pat("F4-mode-solve", solves[0] if len(solves) == 1 else sm, "_solveMode: coeffs[range_I] = S^-1 M[range_I,:] c(rho)", ok,
+                "right-hand side is the mass matrix (rows of the mode's unknowns, every column) applied to the spline coefficients of rho; "
+                "the solution fills the mode's unknowns, Dirichlet entries keep their zero", bad, file=U.POISSON, func=q)
+    func_solve(chk)
     for name in ("_solveMode", "_solveModeFunc"):
         evaluation(chk, name)
+
+
+def func_solve(chk):
+    """_solveModeFunc: the projected right-hand side is taken at the unknowns of the mode and the solution fills the same entries"""
+    q = f"{CLS}._solveModeFunc"
+    sm = flat_view(chk, U.POISSON, CLS, "_solveModeFunc")
+    env = env_of(chk, sm)
+    R = ranges_of(chk)
+    solves = [n for n in ast.walk(sm) if isinstance(n, ast.Assign) and isinstance(n.value, ast.Call)
+              and src(n.value.func).split(".")[-1] == "spsolve" and len(n.value.args) == 2]
+    if len(solves) != 1:
+        chk.ob("F4-mode-solve", sm, "_solveModeFunc: coeffs[range_I] = S^-1 b[range_I]", None, "the call of spsolve was not found", file=U.POISSON, func=q)
+        return
+    st = solves[0]
+    parts = []
+    for what_, e in (("the solution is written to", env.x(st.targets[0], use=st)), ("the right-hand side is taken at", env.x(st.value.args[1], use=st))):
+        if isinstance(e, ast.Subscript) and isinstance(e.slice, ast.Slice) and e.slice.lower is None and e.slice.upper is None \
+                and e.slice.step is None and isinstance(e.value, ast.Subscript):
+            e = e.value
+        v_, why_ = None, f"`{src(e)[:50]}` is not an index range of a vector over the spline space"
+        if isinstance(e, ast.Subscript) and not isinstance(e.slice, ast.Tuple):
+            try:
+                v_, why_ = True, ""
+                for f in FLAG_CASES:
+                    got_ = R.rng(e.slice, f, 10 ** 9, None, NB_SYM)
+                    if not _same_range(got_, unknowns_of(f)):
+                        v_, why_ = False, (f"{what_} the entries {_fmt(got_)} of `{src(e.value)[:30]}` for {_case_text(f)}; the unknowns of the mode "
+                                          f"are {_fmt(unknowns_of(f))}")
+                        break
+            except KeyError as e_:
+                v_, why_ = None, str(e_).strip('"\'')
+        parts.append((v_, why_))
+    bad_ = [w for v, w in parts if v is False]
+    und_ = [w for v, w in parts if v is None]
+    chk.ob("F4-mode-solve", st, "_solveModeFunc: coeffs[range_I] = S^-1 b[range_I]", False if bad_ else (None if und_ else True),
+           bad_[0] if bad_ else ("not followed: " + und_[0] if und_ else
+                                 "the right-hand side is restricted to the unknowns of the mode and the solution fills the same entries of the "
+                                 "coefficient vector"), file=U.POISSON, func=q)
 
 
 def evaluation(chk, name):
     q = f"{CLS}.{name}"
     f_ = flat_view(chk, U.POISSON, CLS, name)
     env = env_of(chk, f_)
-    stores = [n for n in ast.walk(f_) if isinstance(n, ast.Assign) and isinstance(n.targets[0], ast.Subscript)
-              and src(env.x(n.targets[0].value, use=n)).startswith("phi.get1DSlice(")]
+    # the store of the computed solution (a shortcut that writes a constant line is judged by F4-output-complete)
+    stores = [n for n in _output_stores(f_, env) if not _is_number(env.x(n.value, use=n))]
     ok, bad = False, None
     if len(stores) == 1:
         st = stores[0]
@@ -1512,53 +2366,216 @@ def evaluation(chk, name):
             bad, file=U.POISSON, func=q)
 
 
+def _is_number(e):
+    if isinstance(e, ast.UnaryOp) and isinstance(e.op, (ast.USub, ast.UAdd)):
+        e = e.operand
+    return isinstance(e, ast.Constant) and isinstance(e.value, (int, float, complex)) and not isinstance(e.value, bool)
+
+
+def _output_stores(f_, env):
+    return [n for n in ast.walk(f_) if isinstance(n, ast.Assign) and isinstance(n.targets[0], ast.Subscript)
+            and src(env.x(n.targets[0].value, use=n)).startswith("phi.get1DSlice(")]
+
+
+def _paths(stmts, stores):
+    """paths through a block of the z loop: [(conditions [(test, polarity, if-node)], stores met, how the path ends)], the end being
+    None (falls through), or the continue / break / return statement.  Nested loops / with / try blocks are single steps (a store
+    inside them is recorded with the marker `maybe`)"""
+    paths = [([], [], None)]
+    for st in stmts:
+        live = [p_ for p_ in paths if p_[2] is None]
+        done = [p_ for p_ in paths if p_[2] is not None]
+        if not live:
+            break
+        if isinstance(st, ast.If):
+            new = []
+            for conds, got, _ in live:
+                for branch, pol in ((st.body, True), (st.orelse, False)):
+                    for c2, g2, e2 in _paths(branch, stores):
+                        new.append((conds + [(st.test, pol, st)] + c2, got + g2, e2))
+            paths = done + new
+        elif isinstance(st, (ast.Continue, ast.Break, ast.Return, ast.Raise)):
+            paths = done + [(c, g, st) for c, g, _ in live]
+        elif isinstance(st, (ast.For, ast.While, ast.With, ast.Try)):
+            inner = [x for x in ast.walk(st) if any(x is s_ for s_ in stores)]
+            leaves = [x for x in ast.walk(st) if isinstance(x, ast.Return)]
+            paths = done + [(c, g + [("maybe", x) for x in inner], leaves[0] if leaves else None) for c, g, _ in live]
+        else:
+            hit = [x for x in stores if x is st]
+            paths = done + [(c, g + [("sure", x) for x in hit], None) for c, g, _ in live]
+        if len(paths) > 64:
+            return None
+    return paths
+
+
+def _zero_test(e, pol, line_ok):
+    """'exact' when the condition (with its polarity) says that every value of the right-hand side line is exactly zero, 'tolerance'
+    when it says they are small, None otherwise.  `line_ok(expr)` recognises the line of rho"""
+    def call(e_, names, nargs=None):
+        return isinstance(e_, ast.Call) and src(e_.func) in names and (nargs is None or len(e_.args) == nargs)
+
+    def meth(e_, name):
+        return isinstance(e_, ast.Call) and isinstance(e_.func, ast.Attribute) and e_.func.attr == name and not e_.args
+
+    def is_zero(x):
+        return isinstance(x, ast.Constant) and not isinstance(x.value, bool) and x.value == 0
+
+    def eq_zero(x):
+        return isinstance(x, ast.Compare) and len(x.ops) == 1 and isinstance(x.ops[0], ast.Eq) and \
+            ((line_ok(x.left) and is_zero(x.comparators[0])) or (is_zero(x.left) and line_ok(x.comparators[0])))
+    if isinstance(e, ast.UnaryOp) and isinstance(e.op, ast.Not):
+        return _zero_test(e.operand, not pol, line_ok)
+    # a magnitude of the line (max |x|, a norm) compared with a bound: zero bound = exact, any other bound = tolerance
+    inner = e
+    if meth(e, "all") or meth(e, "any"):
+        inner = e.func.value
+    elif call(e, ("np.all", "numpy.all", "all", "np.any", "numpy.any", "any"), 1):
+        inner = e.args[0]
+    if isinstance(inner, ast.Compare) and len(inner.ops) == 1 and isinstance(inner.ops[0], (ast.Lt, ast.LtE, ast.Gt, ast.GtE, ast.Eq, ast.NotEq)):
+        MAG = ("abs", "absolute", "norm", "max", "amax", "fabs")
+
+        def magnitude(x):
+            return any(line_ok(y) for y in ast.walk(x)) and any(isinstance(y, ast.Call) and src(y.func).split(".")[-1] in MAG for y in ast.walk(x))
+        op = type(inner.ops[0])
+        l_, r_ = inner.left, inner.comparators[0]
+        if magnitude(r_) and not magnitude(l_):
+            l_, r_ = r_, l_
+            op = {ast.Lt: ast.Gt, ast.LtE: ast.GtE, ast.Gt: ast.Lt, ast.GtE: ast.LtE}.get(op, op)
+        if magnitude(l_) and not any(line_ok(y) for y in ast.walk(r_)):
+            if not pol:
+                op = {ast.Lt: ast.GtE, ast.LtE: ast.Gt, ast.Gt: ast.LtE, ast.GtE: ast.Lt, ast.Eq: ast.NotEq, ast.NotEq: ast.Eq}[op]
+            if op in (ast.Lt, ast.LtE, ast.Eq):
+                if is_zero(r_):
+                    return "exact" if op in (ast.LtE, ast.Eq) else None
+                return "tolerance" if op in (ast.Lt, ast.LtE) else None
+            return None
+    if not pol:
+        # not any(line), not count_nonzero(line)
+        if (meth(e, "any") and line_ok(e.func.value)) or (call(e, ("np.any", "numpy.any", "np.count_nonzero", "numpy.count_nonzero"), 1)
+                                                            and line_ok(e.args[0])):
+            return "exact"
+        if isinstance(e, ast.Compare) and len(e.ops) == 1 and isinstance(e.ops[0], (ast.NotEq, ast.Gt)) and is_zero(e.comparators[0]) and \
+                call(e.left, ("np.count_nonzero", "numpy.count_nonzero"), 1) and line_ok(e.left.args[0]):
+            return "exact"
+        return None
+    if (meth(e, "all") and eq_zero(e.func.value)) or (call(e, ("np.all", "numpy.all"), 1) and eq_zero(e.args[0])):
+        return "exact"
+    if isinstance(e, ast.Compare) and len(e.ops) == 1 and isinstance(e.ops[0], ast.Eq) and is_zero(e.comparators[0]) and \
+            call(e.left, ("np.count_nonzero", "numpy.count_nonzero"), 1) and line_ok(e.left.args[0]):
+        return "exact"
+    # small, not zero: allclose / isclose
+    if call(inner, ("np.allclose", "numpy.allclose", "np.isclose", "numpy.isclose")) and inner.args and \
+            any(line_ok(a) for a in inner.args[:2]):
+        return "tolerance"
+    return None
+
+
 def output_complete(chk):
-    # every (mode, z) line of the output is written: no path of the z loop skips the store into phi
+    """every (mode, z) line of the output is written with the solution for that line of rho.  Every path through one iteration of
+    the z loop is followed: it must store into the line; a path that stores a zero line instead of solving is the solution only
+    when its condition says that the right-hand side line is exactly zero (a linear problem with homogeneous boundary values)."""
     for name in ("_solveMode", "_solveModeFunc"):
         q_ = f"{CLS}.{name}"
         f_ = flat_view(chk, U.POISSON, CLS, name)
         env = env_of(chk, f_)
-        stores = [n for n in ast.walk(f_) if isinstance(n, ast.Assign) and isinstance(n.targets[0], ast.Subscript)
-                  and src(env.x(n.targets[0].value, use=n)).startswith("phi.get1DSlice(")]
-        zl = [n for n in f_.body if isinstance(n, ast.For) and stores and any(stores[-1] is x for x in ast.walk(n))]
-        if len(zl) != 1 or not stores:
+        stores = _output_stores(f_, env)
+        main = [n for n in stores if not _is_number(env.x(n.value, use=n))]
+        zl = [n for n in f_.body if isinstance(n, ast.For) and main and any(main[-1] is x for x in ast.walk(n))]
+        construct = f"{q_}: every z line of the mode is written"
+        if len(zl) != 1 or len(main) != 1:
             chk.ob("F4-output-complete", f_, f"{q_}: store into phi.get1DSlice(i, j) inside the z loop", None,
                    "z loop / output store not found", file=U.POISSON, func=q_)
             continue
-        st_ = stores[-1]
-        inner = {id(x) for n in ast.walk(zl[0]) if n is not zl[0] and isinstance(n, (ast.For, ast.While)) for x in ast.walk(n)}
-        skips = [n for n in ast.walk(zl[0]) if isinstance(n, (ast.Continue, ast.Break, ast.Return)) and id(n) not in inner
-                 and env.before(n, st_)]
-        direct = any(st_ is x for x in zl[0].body)
-        chk.ob("F4-output-complete", skips[0] if skips else st_, f"{q_}: every z line of the mode is written", (not skips and direct) if (skips or direct) else None,
-               "the store into the output line is an unconditional statement of the z loop" if not skips and direct else
-               (f"`{src(parent(skips[0]))[:80]}` leaves the z loop iteration before the output line is written: phi keeps whatever the buffer "
-                "held (the previous solve), so the result is no longer the solution for this rho (not linear in rho, not zero for rho = 0)"
-                if skips else "the store into the output line is conditional"), file=U.POISSON, func=q_)
+        loop, st_ = zl[0], main[0]
+        paths = _paths(loop.body, stores)
+        if paths is None:
+            chk.ob("F4-output-complete", loop, construct, None, "too many paths through the z loop", file=U.POISSON, func=q_)
+            continue
+        want_line = src(env.x(st_.targets[0].value, use=st_)).replace(" ", "")
+        rho_line = want_line.replace("phi.", "rho.", 1)
+
+        def line_ok(e_, at):
+            return src(env.x(e_, use=at)).replace(" ", "") == rho_line
+        # any other way the function may write into phi (a block-wise prefill, a call that receives the grid): then a path without a
+        # recognised store is not known to leave the line unwritten
+        READERS = {"get1DSlice", "getCoords", "getCoordVals", "getGlobalIdxVals", "getLayout", "getCoord", "getGlobalIndices"}
+        other_writes = []
+        for n in ast.walk(f_):
+            if isinstance(n, (ast.Assign, ast.AugAssign)) and not any(n is x for x in stores):
+                for t_ in (n.targets if isinstance(n, ast.Assign) else [n.target]):
+                    if isinstance(t_, ast.Subscript) and src(env.x(t_.value, use=n)).startswith("phi."):
+                        other_writes.append(n)
+            elif isinstance(n, ast.Call):
+                if isinstance(n.func, ast.Attribute) and src(n.func.value) == "phi" and n.func.attr not in READERS:
+                    other_writes.append(n)
+                elif any(isinstance(a_, ast.Name) and a_.id == "phi" for a_ in list(n.args) + [k.value for k in n.keywords]):
+                    other_writes.append(n)
+        verdicts = []
+        for conds, got, end in paths:
+            sure = [x for k_, x in got if k_ == "sure"]
+            maybe = [x for k_, x in got if k_ == "maybe"]
+            if isinstance(end, ast.Raise):
+                continue
+            if any(x is st_ for x in sure) and not isinstance(end, (ast.Break, ast.Return)):
+                verdicts.append((True, st_, ""))
+                continue
+            where = end if end is not None else (conds[-1][2] if conds else loop)
+            if isinstance(end, (ast.Break, ast.Return)):
+                verdicts.append((False, where, f"`{src(parent(end)).splitlines()[0][:80]}` leaves the z loop: the remaining lines of the mode are not written, phi "
+                                 "keeps whatever the buffer held (the previous solve), so the result is no longer the solution for this rho"))
+                continue
+            if not sure and not maybe and other_writes:
+                verdicts.append((None, where, f"a path through the z loop stores nothing into the output line, but phi is also written by "
+                                 f"`{src(other_writes[0])[:60]}`: not followed"))
+                continue
+            if not sure and not maybe:
+                lead = (src(conds[-1][2]) if conds else src(where)).splitlines()[0][:80]
+                verdicts.append((False, where, f"`{lead}` leaves the z loop iteration before the output line is written: phi keeps whatever the "
+                                 "buffer held (the previous solve), so the result is no longer the solution for this rho (not linear in rho, "
+                                 "not zero for rho = 0)"))
+                continue
+            if maybe and not sure:
+                verdicts.append((None, where, "the store into the output line sits inside a nested block: not followed"))
+                continue
+            z = sure[-1]
+            zv = env.x(z.value, use=z)
+            same_line = src(env.x(z.targets[0].value, use=z)).replace(" ", "") == want_line and \
+                src(z.targets[0].slice).replace(" ", "") in (":", "...")
+            if not (isinstance(zv, ast.Constant) and _is_number(zv) and zv.value == 0 and same_line):
+                verdicts.append((None, z, f"this path stores `{src(z)[:60]}` instead of the computed solution: not followed"))
+                continue
+            kinds = [( _zero_test(env.x(t_, use=if_), pol, lambda e_, if_=if_: line_ok(e_, if_)), t_, pol) for t_, pol, if_ in conds]
+            if any(k_ == "exact" for k_, _, _ in kinds):
+                verdicts.append((True, z, "zero"))
+            elif any(k_ == "tolerance" for k_, _, _ in kinds):
+                t_, p_ = [(t, pl) for k_, t, pl in kinds if k_ == "tolerance"][0]
+                verdicts.append((False, z, f"the line of phi is set to zero without solving whenever `{src(t_)[:70]}` "
+                                 f"{'holds' if p_ else 'does not hold'}, a test with a "
+                                 "tolerance (absolute bound on |rho|), not a test for an exactly zero right-hand side: a line of rho that is "
+                                 "small but not zero gets the solution 0 instead of its own small solution, so the solve is no longer "
+                                 "homogeneous / linear in rho (phi(s*rho) != s*phi(rho) once s*|rho| falls below the tolerance) and small "
+                                 "modes next to large ones are dropped"))
+            else:
+                verdicts.append((None, z, f"the line of phi is set to zero without solving under `{' and '.join(('' if pl else 'not ') + src(t)[:50] for _, t, pl in kinds)}`: "
+                                 "not recognised as a test for an exactly zero right-hand side line"))
+        bad_ = [v for v in verdicts if v[0] is False]
+        und_ = [v for v in verdicts if v[0] is None]
+        short = [v for v in verdicts if v[0] is True and v[2] == "zero"]
+        if bad_:
+            chk.ob("F4-output-complete", bad_[0][1], construct, False, bad_[0][2], file=U.POISSON, func=q_)
+        elif und_ or not verdicts:
+            chk.ob("F4-output-complete", und_[0][1] if und_ else loop, construct, None, und_[0][2] if und_ else "no path through the z loop found",
+                   file=U.POISSON, func=q_)
+        else:
+            chk.ob("F4-output-complete", st_, construct, True,
+                   "every path through an iteration of the z loop stores the solution into the output line" +
+                   (" (a line of rho that is exactly zero gets the zero solution without a solve)" if short else ""),
+                   file=U.POISSON, func=q_)
 
 
 def mode_power(chk):
     """the coefficient of the k2 block in every per-mode operator is -(m_I)^2, counting the squaring done once in the constructor"""
-    fn_init = flat_view(chk, U.POISSON, CLS, "__init__")
-    init_exp, unknown = 1, []
-    for n in ast.walk(fn_init):
-        if isinstance(n, ast.AugAssign) and src(n.target) == "self._mVals":
-            if isinstance(n.op, ast.Mult) and src(n.value) == "self._mVals":
-                init_exp *= 2
-            elif isinstance(n.op, ast.Pow) and isinstance(n.value, ast.Constant) and isinstance(n.value.value, int):
-                init_exp *= n.value.value
-            else:
-                unknown.append(n)
-        elif isinstance(n, ast.Assign) and src(n.targets[0]) == "self._mVals" and "self._mVals" in src(n.value):
-            v = src(n.value).replace(" ", "")
-            if v in ("self._mVals**2", "self._mVals*self._mVals", "np.square(self._mVals)", "np.power(self._mVals,2)"):
-                init_exp *= 2
-            else:
-                unknown.append(n)
-        elif isinstance(n, (ast.Assign, ast.AugAssign)):
-            for t in (n.targets if isinstance(n, ast.Assign) else [n.target]):
-                if isinstance(t, ast.Subscript) and src(t.value) == "self._mVals":
-                    unknown.append(n)
+    mt = mode_tables(chk)
     nsites = 0
     for cls, m, _ in ENTRIES:
         fn = flat_view(chk, U.POISSON, cls, m)
@@ -1598,64 +2615,163 @@ def mode_power(chk):
                 ex = sp.expand(_sym(site, table))
                 K = table["self._k2PhiPsi"]
                 co = sp.Poly(ex, K).coeff_monomial(K)
-                ms = [v for k, v in table.items() if k.startswith("self._mVals[")]
-                if unknown:
-                    why = f"self._mVals is modified by `{src(unknown[0])[:60]}` in the constructor: power of m not determined"
-                elif len(ms) != 1 or (co.free_symbols - set(ms)):
+                mk = [k for k in table if "[" in k and k.split("[")[0] in mt.tables()]
+                ms = [table[k] for k in mk]
+                if len(ms) != 1 or (co.free_symbols - set(ms)):
                     why = f"coefficient of the k2 block is `{co}`: not a power of one mode number"
                 else:
                     M = ms[0]
+                    idx = mk[0]
+                    T = idx.split("[")[0]
+                    init_exp = mt.final(T)
                     pw = sp.degree(co, M) if co.has(M) else 0
-                    eff = pw * init_exp
-                    idx = [k for k in table if k.startswith("self._mVals[")][0]
-                    if sp.simplify(co + M ** pw) == 0 and eff == 2:
-                        ok, why = True, (f"the k2 block enters with -({idx})^{pw}, the mode numbers being raised to the power {init_exp} once in the "
-                                         "constructor: -m^2 D in total")
-                    elif sp.simplify(co + M ** pw) == 0 or sp.simplify(co - M ** pw) == 0:
-                        ok = False
-                        sign = "-" if sp.simplify(co + M ** pw) == 0 else "+"
-                        why = (f"the k2 block enters with {sign}({idx})^{pw} and the constructor raises the mode numbers to the power {init_exp}: "
-                               f"the operator contains {sign}m^{eff} D instead of -m^2 D" +
-                               (" (+m and -m get different operators)" if eff % 2 else ""))
+                    if init_exp is None:
+                        fo = [f for f in mt.foreign if f[0] == T]
+                        ch = mt.changes(T)
+                        why = (f"`{T}` is modified by `{src(fo[0][2])[:60]}` in {fo[0][1]}" if fo else
+                               f"`{T}` is built / modified by `{src((ch or [mt.hist[T][0][2]])[-1])[:60]}` in the constructor") + \
+                            ": the power of the mode number it holds is not determined"
                     else:
-                        why = f"coefficient of the k2 block is `{co}`"
+                        eff = pw * init_exp
+                        held = "the mode numbers themselves" if init_exp == 1 else f"the mode numbers raised to the power {init_exp} by the constructor"
+                        if sp.simplify(co + M ** pw) == 0 and eff == 2:
+                            ok, why = True, f"the k2 block enters with -({idx})^{pw}, `{T}` holding {held}: -m^2 D in total"
+                        elif sp.simplify(co + M ** pw) == 0 or sp.simplify(co - M ** pw) == 0:
+                            ok = False
+                            sign = "-" if sp.simplify(co + M ** pw) == 0 else "+"
+                            why = (f"the k2 block enters with {sign}({idx})^{pw} and `{T}` holds {held}: "
+                                   f"the operator contains {sign}m^{eff} D instead of -m^2 D" +
+                                   (" (+m and -m get different operators)" if eff % 2 else ""))
+                        else:
+                            why = f"coefficient of the k2 block is `{co}`"
             except (KeyError, sp.PolynomialError) as e:
                 why = f"operator expression `{src(site)[:70]}` not an arithmetic expression: {e}"
             chk.ob("F4-mode-power", st, f"{cls}.{m}: {src(site)[:70]}", ok, why, file=U.POISSON, func=f"{cls}.{m}")
     return nsites
 
 
+def _conjuncts(e, pol=True):
+    """[(atom, polarity)] of a condition read as a conjunction; an atom the split cannot enter is returned whole"""
+    if isinstance(e, ast.BoolOp) and isinstance(e.op, ast.And) and pol:
+        return [a for v in e.values for a in _conjuncts(v, True)]
+    if isinstance(e, ast.BoolOp) and isinstance(e.op, ast.Or) and not pol:
+        return [a for v in e.values for a in _conjuncts(v, False)]
+    if isinstance(e, ast.UnaryOp) and isinstance(e.op, ast.Not):
+        return _conjuncts(e.operand, not pol)
+    return [(e, pol)]
+
+
+def _nonempty_of(e, pol):
+    """the collection whose non-emptiness the atom tests (`len(B) != 0`, `len(B) > 0`, `B`, `any(B)`), or None"""
+    if not pol:
+        if isinstance(e, ast.Compare) and len(e.ops) == 1 and isinstance(e.ops[0], ast.Eq) and src(e.comparators[0]) == "0" \
+                and isinstance(e.left, ast.Call) and src(e.left.func) == "len" and len(e.left.args) == 1:
+            return e.left.args[0]
+        return None
+    if isinstance(e, ast.Compare) and len(e.ops) == 1 and isinstance(e.left, ast.Call) and src(e.left.func) == "len" and len(e.left.args) == 1 \
+            and src(e.comparators[0]) == "0" and isinstance(e.ops[0], (ast.NotEq, ast.Gt)):
+        return e.left.args[0]
+    if isinstance(e, ast.Compare) and len(e.ops) == 1 and isinstance(e.left, ast.Call) and src(e.left.func) == "len" and len(e.left.args) == 1 \
+            and src(e.comparators[0]) == "1" and isinstance(e.ops[0], ast.GtE):
+        return e.left.args[0]
+    if isinstance(e, ast.Call) and src(e.func) in ("len", "any", "bool") and len(e.args) == 1 and not e.keywords:
+        return e.args[0]
+    if isinstance(e, (ast.ListComp, ast.SetComp, ast.BinOp)) or (isinstance(e, ast.Call) and isinstance(e.func, ast.Attribute)
+                                                                 and e.func.attr == "intersection"):
+        return e
+    return None
+
+
+def _bare_list(e):
+    while isinstance(e, ast.Call) and len(e.args) == 1 and not e.keywords and src(e.func) in ("set", "list", "tuple", "frozenset"):
+        e = e.args[0]
+    return src(e)
+
+
 def refusal(chk):
+    """a mode with Neumann conditions on both boundaries and no term in phi has no unique solution: the constructor refuses it.
+    Followed: the conjunction of every test the `raise` depends on (nested ifs, loops over the modes, named intermediate values),
+    the both-ends collection as an intersection of the two lists or as a per-mode selection."""
     fn = flat_view(chk, U.POISSON, CLS, "__init__")
     env = env_of(chk, fn)
+    mt = mode_tables(chk)
+    q = f"{CLS}.__init__"
     raises = [n for n in ast.walk(fn) if isinstance(n, ast.Raise)]
     ok = False
     bad = None
+    notes = []
     for r in raises:
-        g = parent(r)
-        if not (isinstance(g, ast.If) and any(r is x for x in g.body)):
-            continue
-        t = env.x(g.test, stop=set(COEFF_FUNCS), use=g)
-        ts = src(t).replace(" ", "")
-        both = any(same_expr(c, f"[b for b in {a_} if b in {b_}]", vars=("b",)) for c in ast.walk(t) if isinstance(c, ast.ListComp)
-                   for a_, b_ in (("lNeumannIdx", "uNeumannIdx"), ("uNeumannIdx", "lNeumannIdx"))) or \
-            "set(lNeumannIdx)&set(uNeumannIdx)" in ts or "set(uNeumannIdx)&set(lNeumannIdx)" in ts or \
-            "set(lNeumannIdx).intersection(uNeumannIdx)" in ts or "set(uNeumannIdx).intersection(lNeumannIdx)" in ts
-        null = [c for c in ast.walk(t) if isinstance(c, ast.Call) and src(c.func) == "self.funcIsNull" and len(c.args) == 1
-                and src(c.args[0]) == "rFactor"]
-        if both and null:
-            negated = any(isinstance(n, ast.UnaryOp) and isinstance(n.op, ast.Not) and any(null[0] is x for x in ast.walk(n.operand))
-                          for n in ast.walk(t))
-            if negated:
-                bad = ("pure-Neumann modes are refused when the reaction term does NOT vanish and accepted when it does: the singular "
-                       "problems go through")
-            elif isinstance(t, ast.BoolOp) and isinstance(t.op, ast.And):
-                ok = True
-    if not raises:
+        atoms = []
+        loopvars = {}
+        cur, p = r, parent(r)
+        while p is not None and p is not fn:
+            if isinstance(p, ast.If):
+                pol = any(cur is x for x in p.body)
+                atoms += _conjuncts(env.x(p.test, stop=set(COEFF_FUNCS), use=p), pol)
+            elif isinstance(p, ast.For) and isinstance(p.target, ast.Name):
+                loopvars[p.target.id] = env.x(p.iter, use=p)
+            cur, p = p, parent(p)
+        null_pos = null_neg = False
+        lists = set()
+        extras = []
+        for e, pol in atoms:
+            if isinstance(e, ast.Call) and src(e.func) == "self.funcIsNull" and len(e.args) == 1 and src(e.args[0]) == "rFactor":
+                null_pos |= pol
+                null_neg |= not pol
+                continue
+            if pol and isinstance(e, ast.Compare) and len(e.ops) == 1 and isinstance(e.ops[0], ast.In) and isinstance(e.left, ast.Name) \
+                    and e.left.id in loopvars and _bare_list(e.comparators[0]) in NEUMANN_LISTS:
+                # raise inside a loop over the modes / over one of the lists
+                it = loopvars[e.left.id]
+                lists.add(_bare_list(e.comparators[0]))
+                if _bare_list(it) in NEUMANN_LISTS:
+                    lists.add(_bare_list(it))
+                elif not mt._tracked_in(it):
+                    extras.append(f"loop over `{src(it)[:40]}`")
+                continue
+            B = _nonempty_of(e, pol)
+            if B is None:
+                extras.append(src(e)[:60])
+                continue
+            if isinstance(B, (ast.ListComp, ast.SetComp, ast.GeneratorExp)) and len(B.generators) == 1 and isinstance(B.generators[0].target, ast.Name):
+                g = B.generators[0]
+                var = g.target.id
+                if _bare_list(g.iter) in NEUMANN_LISTS:
+                    lists.add(_bare_list(g.iter))
+                elif not mt._tracked_in(g.iter):
+                    extras.append(f"selection over `{src(g.iter)[:40]}`")
+                for c_, cpol in [a_ for i_ in g.ifs for a_ in _conjuncts(i_, True)]:
+                    if cpol and isinstance(c_, ast.Compare) and len(c_.ops) == 1 and isinstance(c_.ops[0], ast.In) and src(c_.left) == var \
+                            and _bare_list(c_.comparators[0]) in NEUMANN_LISTS:
+                        lists.add(_bare_list(c_.comparators[0]))
+                    elif cpol and isinstance(c_, ast.BoolOp) and isinstance(c_.op, ast.Or) and len(c_.values) == 2 and \
+                            any(src(v).replace(" ", "") in (f"{var}==0", f"0=={var}") for v in c_.values) and \
+                            any(isinstance(v, ast.Call) and src(v.func) == "self.funcIsNull" and len(v.args) == 1
+                                and src(v.args[0]) == "ddThetaFactor" for v in c_.values):
+                        # the term -m^2 D phi makes a pure-Neumann mode m != 0 well posed unless D vanishes
+                        notes.append("modes m != 0 are kept when the theta term D does not vanish")
+                    else:
+                        extras.append(src(c_)[:60])
+            else:
+                ts = src(B).replace(" ", "")
+                if ts in ("set(lNeumannIdx)&set(uNeumannIdx)", "set(uNeumannIdx)&set(lNeumannIdx)", "set(lNeumannIdx).intersection(uNeumannIdx)",
+                          "set(uNeumannIdx).intersection(lNeumannIdx)", "set(lNeumannIdx).intersection(set(uNeumannIdx))",
+                          "set(uNeumannIdx).intersection(set(lNeumannIdx))"):
+                    lists |= set(NEUMANN_LISTS)
+                else:
+                    extras.append(src(e)[:60])
+        both = lists == set(NEUMANN_LISTS)
+        if both and null_neg and not null_pos:
+            bad = ("pure-Neumann modes are refused when the reaction term does NOT vanish and accepted when it does: the singular "
+                   "problems go through")
+        elif both and null_pos and not null_neg and not extras and not env.amb:
+            ok = True
+    if not raises and not any(isinstance(n, ast.Assert) and ({x.id for x in ast.walk(n.test) if isinstance(x, ast.Name)} & set(NEUMANN_LISTS))
+                              for n in ast.walk(fn)):
         bad = "no refusal of ill-posed pure-Neumann modes is left in the constructor"
     chk.pat("F4-neumann-refusal", fn, "raise ValueError for modes Neumann at both ends with C == 0", ok,
-            "modes with Neumann conditions on both boundaries are refused when the reaction term vanishes", bad,
-            file=U.POISSON, func=f"{CLS}.__init__")
+            "modes with Neumann conditions on both boundaries are refused when the reaction term vanishes" +
+            ("; " + "; ".join(sorted(set(notes))) if notes else ""), bad, file=U.POISSON, func=q)
 
 
 def run(chk):
